@@ -12,1399 +12,475 @@ Definition show_fres (r : fres) : string :=
   end.
 Definition check (rs : list rune) : string := digest (show_fres (format_res rs)).
 Definition full (rs : list rune) : string := show_fres (format_res rs).
-Eval vm_compute in ("<<<M4486>>>" ++ check (runes_of_ascii "
-root packet MetaDataX
-
-    { int32
-Logon
-	,	}packet
-
-    roots	{ match
-    calculatedFrom  as	i8i8	{
-
-[ ""// no comment"" ,""\" ++ [233]%N ++ runes_of_ascii """
-
-,// c
-	10 ,
-
-    ""\n"" ,
-	""{,}""  ,  //	t
-  65535
-,
-
-""x y"" ]	:	// " ++ [128512]%N ++ runes_of_ascii " emoji
-	As
-,
-    10
-    : o , 
-""\" ++ [233]%N ++ runes_of_ascii """ :
-	MetaDataX
-	}	,
-
-@leftPad
-(
-
-    '\x00' )
-    @lengthOf(  a1)
-	// `tick` ""quote"" 'q'
-		@calculatedFrom(
-""a\\""
-
-    )
-    uint16
-float
-	@calculatedFrom(""`tick`"") 	 //	t
-	,
-    string BodyLength
-    @calculatedFrom(
-
-    ""x y"" ) ,
-
-calculatedFrom
-    stringy // packet A { u8 x, }
-,
-
-@lengthOf(  a1
-
-)
-    @tag(
-
-    65535
-	) char[] falsey `// not a comment`
-
-,
-	@calculatedFrom( """ ++ [233]%N ++ runes_of_ascii "t" ++ [233]%N ++ runes_of_ascii """  )
-
-    char[
-    255 ]/// triple
-		msg_type ,  o
-    ,	@rightPad
-(
-
-    '0'
-	)	// trailing space 
-
-repeat  rootA {
-x
-
-{repeat 
-u8
-    Z9_  `
-`
-, 
-char[
-    255]// " ++ [128512]%N ++ runes_of_ascii " emoji
-    leftPad  , 
-int32 len `line1
-line2`  , 
-} , // `tick` ""quote"" 'q'
-
-	repeat
-
-    uint8x 
-{char[]
-rootA
-    @lengthOf(
-
-Z9_
-
-    )
-	,
-
-    match  zchar  as
-	x_y_z  { 0:  Z9_
-
-    ,[  007 ,
-007
-, 
-1 ,
-007	,""""  ,
-	""1""  ]  :
-
-packetx , [ ""1"" ,
-
-"""" ] 
-:len
-    ,
-
-""""
-    :
-BodyLength
-    , [
-""// no comment""
-
-    ,
-        //	t
-
-	""" ++ [128512]%N ++ runes_of_ascii """ 
-, ""`tick`""]
-
-:
-	chars
-
-,10
-	:  T} , }	,
-        // " ++ [27880; 37322]%N ++ runes_of_ascii "
-	a1
-
-@lengthOf(body), 
-} 
-//x
-, 
-}  MetaData// c
-	crc
-{
-    }	options	{
-	rootA = 
-'\x00' }  packet  lengthOf{
-char[]
-
-    float 	 // " ++ [128512]%N ++ runes_of_ascii " emoji
-	`" ++ [28040; 24687; 31867; 22411]%N ++ runes_of_ascii "`  , char[]
-	falsey
-
-    ,
-
-repeatCount
-
-    `crlf
-line`
-,// packet A { u8 x, }
-    uint32 Foo
-
-    @lengthOf(
-string_
-)
-`doc`
-    ,@calculatedFrom(  // @lengthOf(
-	""\n""
-) f64
-	Pad
-
-    @lengthOf(  i8i8 ) 
-,
-@lengthOf( i8i8 
-)
-    x_y_z  // `tick` ""quote"" 'q'
-    x,	@calculatedFrom(
-""1"" 
-    // packet A { u8 x, }
-	// packet A { u8 x, }
-  )
-pack { float64
-leftPad
-    `crlf
-line`	,
-repeat int {
-
-match packetx as
-    repeatCount
-{	// " ++ [27880; 37322]%N ++ runes_of_ascii "
-[
-""a\""b"",
-	    // c
-    42
-    ] :repeatCount // a // b
-    ,
-	3
-: 	 // " ++ [128512]%N ++ runes_of_ascii " emoji
-    	leftPad , ""it's"" 
-:  i8i8 ,
-
-""packet"" 
-:x_y_z ""`tick`""
-: asx ,
-
-    3
-	:
-
-Foo
-,
-    }
-    , i32//	t
-
-  options1 `" ++ [233]%N ++ runes_of_ascii "` ,
-repeat	int
-	i64_ ,
-
-}
-	, }
-
-, } ")).
-Eval vm_compute in ("<<<M1074>>>" ++ check (runes_of_ascii "root packet options1 {
-@rightPad( '0'
-    )	u64  string_
-    `a\`, @lengthOf(u128
-    /// triple
-    ) @tag(	7 )i16 // " ++ [27880; 37322]%N ++ runes_of_ascii "
-o ,repeat uint8 a1 , @lengthOf( msg_type ) repeat float64 Z9_`two words` ,  match metadata
-as
-Logon
-/// triple
-// a // b
-{ [""" ++ [128512]%N ++ runes_of_ascii """
-, 42]
-    : A , } , BodyLength len ,
-    // a // b
-    }
-    packet
-zchar {
-string_ lengthOf , match x as Logon { """ ++ [28040; 24687]%N ++ runes_of_ascii """ : calculatedFrom ,	""" ++ [233]%N ++ runes_of_ascii "t" ++ [233]%N ++ runes_of_ascii """ : roots
-[ 255 ] ://	t
-falsey 255 :
-T ,// packet A { u8 x, }
-}, repeat
-charz ,@calculatedFrom( // " ++ [128512]%N ++ runes_of_ascii " emoji
-""it's""  ) @calculatedFrom( ""\n"" ) @rightPad ( ' ')
-    int32
-    rootA , i64_ leftPad, roots , char[]
-// c
-// " ++ [128512]%N ++ runes_of_ascii " emoji
-msg_type `" ++ [233]%N ++ runes_of_ascii "`
-    , pack @calculatedFrom(""// no comment"" ) , @rightPad ( ' ' )	repeat// trailing space 
-leftPad ,int64 lengthOf,} // trailing space 
-packet  msg_type
-{@lengthOf(
-Z9_ )	repeat trueish
-// " ++ [27880; 37322]%N ++ runes_of_ascii "
-// " ++ [27880; 37322]%N ++ runes_of_ascii "
-{// trailing space 
-stringy
-`{ , }` , u64 calculatedFrom	@calculatedFrom( ""it's"") ,char[ // @lengthOf(
-10 //x
-] crc
-// a // b
-// " ++ [128512]%N ++ runes_of_ascii " emoji
-,
-    }	, match f32a as Logon{
-    // @lengthOf(
-    ""abc""
-: BodyLength, [	0 , 42
-]  :
-    Header
-007: Z9_
-""a\""b"":chars	,
-} ,@lengthOf(  roots
-)options1 // trailing space 
-A `u8 x,`
-    //	t
-    ,  char[
-1 ] u128
-    // " ++ [27880; 37322]%N ++ runes_of_ascii "
-    ,@lengthOf( x_y_z )
-//x
-//
-MetaDataX @calculatedFrom( ""1""
-    )
-`{ , }` , len
-{
-x_y_z Logon ,matchKey repeatCount
-// a // b
-// " ++ [27880; 37322]%N ++ runes_of_ascii "
-,
-T { i8 trueish @calculatedFrom( ""\" ++ [233]%N ++ runes_of_ascii """ )`tab	here`
-,} ,
-    // a // b
-    repeat float zchar /// triple
-`two words` ,} ,repeat  u8	metadata
-`crlf
-line`
-    ,@calculatedFrom( ""\" ++ [233]%N ++ runes_of_ascii """ )char[ 0	]
-trueish
-@calculatedFrom("""" )
-//
-//
-, //x
-uint8 charz // @lengthOf(
-, } MetaData
-    // a // b
-    a1{
-f32 trueish `line1
-line2` ,string uint8x// packet A { u8 x, }
-`" ++ [28040; 24687; 31867; 22411]%N ++ runes_of_ascii "`, i32 tag,
-stringy zchar  `" ++ [28040; 24687; 31867; 22411]%N ++ runes_of_ascii "`
-,	}
-")).
-Eval vm_compute in ("<<<M681>>>" ++ check (runes_of_ascii "options {	leftPad = false
-    ;
-Packet  =//	t
-int16 ;
+Eval vm_compute in ("<<<M1816>>>" ++ check (runes_of_ascii "options {
+    lengthOf = ""CRC32"";
+    stringy = uint16;
+    u8x = float32;
+    x_y_z = zchar[007]
+    repeatCount = ""a\""b"";
     // c
-    len = ' ' calculatedFrom =65535
-; } MetaData Header{  int32 Z9_ , f32
-zchar `u8 x,` , char[  10 // a // b
-]x , asx
-_x
-`two words`
-    /// triple
-    , zchar[ 1 ]calculatedFrom `it's` ,}
-// a // b
-//	t
-packet
-    o{
-    u msg_type
-// " ++ [27880; 37322]%N ++ runes_of_ascii "
-//
-,@leftPad( '0' ) repeat BodyLength u
-    `" ++ [233]%N ++ runes_of_ascii "` , @leftPad
-('0'// " ++ [27880; 37322]%N ++ runes_of_ascii "
-)@tag( 1 )zchar[ 1 ]i64_ @calculatedFrom( """ ++ [233]%N ++ runes_of_ascii "t" ++ [233]%N ++ runes_of_ascii """	)	`it's` , @lengthOf( x
-    )
-    @tag( 255  ) @tag(  7 )
-repeat zchar[ 10
-] chars
-`two words` ,	@lengthOf(	Foo )rootA `" ++ [233]%N ++ runes_of_ascii "`
-, } packet o {pack // " ++ [27880; 37322]%N ++ runes_of_ascii "
-{repeat i8	lengthOf
-    ,char int //	t
-`u8 x,` ,
-//	t
-// a // b
-i64 matchKey@lengthOf( x_y_z // @lengthOf(
-), }
-, zchar[ 007 ]
-//x
-// packet A { u8 x, }
-metadata`say ""hi""`  , @rightPad ( ' ' )
-    match //x
-MetaDataX
-    as
-x_y_z { 0 : roots , """" : chars
-    ,
-    """ ++ [28040; 24687]%N ++ runes_of_ascii """ : T , 0 :
-//x
-// a // b
-Foo
-//	t
-/// triple
-,
-    [ 0123456789, """ ++ [28040; 24687]%N ++ runes_of_ascii """ , 0 , """ ++ [233]%N ++ runes_of_ascii "t" ++ [233]%N ++ runes_of_ascii """ ,
-    10 , ""a	b""
-, """ ++ [233]%N ++ runes_of_ascii "t" ++ [233]%N ++ runes_of_ascii """ //	t
-,""" ++ [128512]%N ++ runes_of_ascii """
-]  :
-options1 0123456789  :u ,// " ++ [128512]%N ++ runes_of_ascii " emoji
-} , len @calculatedFrom(
-""a\""b""
-) // " ++ [27880; 37322]%N ++ runes_of_ascii "
-, @tag(42 )
-@lengthOf( x_y_z	)
-// a // b
-/// triple
-leftPad chars , //	t
-i8 options1
-@lengthOf(i64_
-    )	,
-repeat
-matchKey `
-` , o	@calculatedFrom( ""`tick`"" ) ,
-    @lengthOf( len ) len
-{match float as
-    rootA {
-[ ""x y""  , ""a\""b"" ,7 , """"
-, """ ++ [233]%N ++ runes_of_ascii "t" ++ [233]%N ++ runes_of_ascii """ , 4294967296
-    ,
-    ""abc"" , 65535
-]: float
-    , } ,	f32
-    Packet ,
-u16 a1	,	zchar[ 65535 ]
-stringy, } ,	} root packet
-    metadata // a // b
-{
-    @tag( 4294967296
-    ) // " ++ [27880; 37322]%N ++ runes_of_ascii "
-string	u8x
-    `a\` , }
-")).
-Eval vm_compute in ("<<<M783>>>" ++ check (runes_of_ascii "MetaData
-asx{ Packet i64_	, zchar[ 0 ] stringy ,
-A tag , }
-    options	{ } root packet
-//x
-// trailing space 
-metadata { repeat x_y_z matchKey , repeat char[]
-x_y_z
-    // packet A { u8 x, }
-    `crlf
-line`	, @lengthOf(	As )  char[]x_y_z ,
-@tag(  00)  @calculatedFrom(""" ++ [233]%N ++ runes_of_ascii "t" ++ [233]%N ++ runes_of_ascii """ )
-    u8	pack @calculatedFrom( ""CRC32"" ) , roots
-    // " ++ [27880; 37322]%N ++ runes_of_ascii "
-    repeatCount ,	uint8x /// triple
-`two words`,
-}  options { Z9_ // `tick` ""quote"" 'q'
-= string Z9_ =
-    0 string_= true ; // c
-crc =
-i64 ; } packet packetx {  @leftPad (
-'0' )// " ++ [128512]%N ++ runes_of_ascii " emoji
-@rightPad
-( '0' ) @lengthOf(
-stringy )
-char[]
-body `" ++ [28040; 24687; 31867; 22411]%N ++ runes_of_ascii "` , // " ++ [27880; 37322]%N ++ runes_of_ascii "
-match u as Foo
-    { // " ++ [27880; 37322]%N ++ runes_of_ascii "
-4294967296 :  Logon , } ,
-match
-stringy as BodyLength{  ""a\\"" :
-    chars 4294967296 : Packet,
-4294967296:	_x,255 :Foo , 1 : roots, }, @rightPad ( '0' ) //x
-match
-    // `tick` ""quote"" 'q'
-    u8x
-as f32a{
-[  ""x y"", // a // b
-""" ++ [128512]%N ++ runes_of_ascii """ ,
-    ""`tick`"" ] : calculatedFrom ,
-    ""a\""b""
-: packetx
-    // packet A { u8 x, }
-    ,	[
-    0 ]
-: /// triple
-As ,[ """ ++ [28040; 24687]%N ++ runes_of_ascii """
-] :
-    // `tick` ""quote"" 'q'
-    Z9_ } ,	@lengthOf(// a // b
-Logon	) match
-    chars as
-    len{[ 3 ,	""a\\""
-    //x
-    ]:string_[
-// `tick` ""quote"" 'q'
-// c
-""it's""  ,// c
-""a\\""	] : len ,
-    [ ""\n""	,
-3
-,""" ++ [28040; 24687]%N ++ runes_of_ascii """ ]
-: rootA , 10	: msg_type , }, char[]	chars@lengthOf( trueish )
-`
-` , //
-@tag( 0
-) repeat // " ++ [128512]%N ++ runes_of_ascii " emoji
-zchar[ 7 ] A	,  char[
-7 ] rootA  ,
-// " ++ [128512]%N ++ runes_of_ascii " emoji
-// c
-}")).
-Eval vm_compute in ("<<<M1348>>>" ++ check (runes_of_ascii "options { tag = 0;} packet u8x
-    { // trailing space 
-u Z9_ , @tag(
-    00 )@rightPad ( '\x00'
-    )  @calculatedFrom(
-""CRC32"" ) //	t
-crc, metadata	@calculatedFrom(
-""a	b""
-    ) // c
-, @tag( 4294967296  ) u64 rootA
-    `tab	here`, // @lengthOf(
-@calculatedFrom( ""\n""
-    )char[]	pack
-    @lengthOf( chars) `" ++ [28040; 24687; 31867; 22411]%N ++ runes_of_ascii "` ,zchar[ 255 ]Foo @lengthOf( f32a ) , @leftPad
-(	) @lengthOf( string_ )
-@rightPad(
-' '
-    )
-    match
-msg_type
-as // " ++ [128512]%N ++ runes_of_ascii " emoji
-falsey  {
-    // a // b
-    ""a	b"" :
-x ,} , @calculatedFrom( ""{,}"" )
-match
-body as MetaDataX {42 // " ++ [27880; 37322]%N ++ runes_of_ascii "
-: u8x 0123456789
-: options1 , // c
-[ 3 ]: As , [ 00 ] :// c
-A ,
-""CRC32""
-: zchar , [	""it's"" ,
-""" ++ [233]%N ++ runes_of_ascii "t" ++ [233]%N ++ runes_of_ascii """  ,	""1"", 3, ""a	b""
-    , 1
-    //x
-    ,  0123456789, //	t
-4294967296
-] :
-    packetx
-    , // " ++ [27880; 37322]%N ++ runes_of_ascii "
-}, repeat uint8 o`{ , }`
-    ,
-//	t
-//
-} packet leftPad {
-u32
-// packet A { u8 x, }
-//x
-packetx
-`a\` ,@calculatedFrom( ""// no comment""	) @rightPad ( ) @lengthOf(
-    asx
-    )
-// c
-// trailing space 
-char[ 42
-    ] calculatedFrom @lengthOf( packetx ), @tag(
-    00
-)stringy  msg_type , u128 i64_ `it's` ,@rightPad
-    ('\x00') u8x
-, @calculatedFrom( """ ++ [28040; 24687]%N ++ runes_of_ascii """
-) len msg_type , // packet A { u8 x, }
-MetaDataX pack
-    // c
-    ,@calculatedFrom( """ ++ [28040; 24687]%N ++ runes_of_ascii """ ) string MetaDataX//	t
-`
-` , }
-")).
-Eval vm_compute in ("<<<M3742>>>" ++ check (runes_of_ascii "// " ++ [27880; 37322]%N ++ runes_of_ascii "
-packet a1 {
-    @calculatedFrom(""" ++ [233]%N ++ runes_of_ascii "t" ++ [233]%N ++ runes_of_ascii """)
-    Logon {
-        options1 falsey `// not a comment`,
-        Z9_ @calculatedFrom(""packet""),
-        int8 Packet `two words`,
-    },
-    @tag(007)
-    char[] chars @lengthOf(Packet) `crlf
-    line`,
-    match msg_type as Header {
-        """ ++ [28040; 24687]%N ++ runes_of_ascii """ : _x,
-        //x
-    },
-    repeat u128 {
-        Logon @calculatedFrom(""it's"") `{ , }`,
-    },
-    int64 calculatedFrom,
-    repeat zchar[0] a1 `say ""hi""`,
-    match options1 as repeatCount {
-        [
-            ""1"", ""`tick`"", 10, ""\" ++ [233]%N ++ runes_of_ascii """, 0123456789,
-            ""a\""b""
-        ] : pack,
-        // @lengthOf(
-        0123456789 : Logon,
-        255 : x,
-    },
-    @calculatedFrom(""abc"")
-    @lengthOf(x)
-    repeat Pad {
-        u8x {
-            uint8 T @lengthOf(float),
-            match Header as trueish {
-                ""a	b"" : body,
-            },
-            int8 MetaDataX @calculatedFrom(""a	b""),
-            i8i8 Pad `" ++ [28040; 24687; 31867; 22411]%N ++ runes_of_ascii "`,
-        },
-        repeat i8 A,// trailing space 
-    },
-    uint32 x @lengthOf(Logon) `two words`,
-}
-
-packet trueish {
-}
-
-MetaData msg_type {
-}
-
-packet i8i8 {
-    @tag(007)
-    //x
-    zchar[10] msg_type,
-}")).
-Eval vm_compute in ("<<<M3633>>>" ++ check (runes_of_ascii "// top
-options // c0
-{
-    // c1
-LittleEndian // c2a
-  // c2b
-=
-    // c3
-true // c4a
-  // c4b
-; // c5a
-  // c5b
-StringPrefixLenType = u16 // c8a
-  // c8b
-; // c9
-ArrayPrefixLenType // c10a
-  // c10b
-= u64 ; } // c14
-packet // c15
-Fill { // c17
-} // c18
-packet Logon
-    // c20
-{
-    // c21
-repeat
-    // c22
-char[ // c23
-3 // c24a
-  // c24b
-] // c25a
-  // c25b
-Tail
-    // c26
-,
-    // c27
-zchar[ // c28
-6
-    // c29
-] // c30a
-  // c30b
-venue // c31
-,
-    // c32
-repeat // c33a
-  // c33b
-string Side2 // c35a
-  // c35b
-,
-    // c36
-} // c37a
-  // c37b
-root packet Cancel
-    // c40
-{ // c41
-char[] Flags // c43a
-  // c43b
-, char[] // c45
-OrderId ,
-    // c47
-zchar[ 6
-    // c49
-]
-    // c50
-msgKind // c51a
-  // c51b
-,
-    // c52
-Fill // c53a
-  // c53b
-, char[] // c55a
-  // c55b
-Acct , u8 f1
-    // c59
-, match f1
-    // c62
-as Body // c64
-{ // c65a
-  // c65b
-188
-    // c66
-:
-    // c67
-Fill // c68
-,
-    // c69
-5 // c70a
-  // c70b
-:
-    // c71
-Logon , // c73a
-  // c73b
-}
-    // c74
-, // c75
-u32 clOrdID // c77
-@calculatedFrom(
-    // c78
-""CRC32"" ) , } // c82
-")).
-Eval vm_compute in ("<<<M1258>>>" ++ check (runes_of_ascii "options { lengthOf
-    =
-""" ++ [128512]%N ++ runes_of_ascii """  Pad= ""it's""
-    Packet
-=' '
-;} packet
-stringy {@calculatedFrom( ""a\\"" ) stringy asx
-    //x
-    `doc` , f32a  , options1 { f64 BodyLength @lengthOf(i64_ )  , matchKey
-    // `tick` ""quote"" 'q'
-    roots,  repeat i8 chars ,
-    /// triple
-    } ,
-charz
-    string_ ,
-    i8  repeatCount `crlf
-line`
-, }
-    packet uint8x
-    {@tag( 00 // " ++ [128512]%N ++ runes_of_ascii " emoji
-)
-uint64	MetaDataX  ,@tag( 00
-) char uint8x @lengthOf(
-    uint8x
-    ) , roots @lengthOf( stringy  ) `
-`
-, @rightPad ()
-    zchar[ 0123456789
-    //
-    ] T//x
-`" ++ [233]%N ++ runes_of_ascii "`	, @tag(42
-) repeat i64
-    repeatCount // `tick` ""quote"" 'q'
-, falsey `doc` , char[65535]
-falsey
-`say ""hi""` , x_y_z
-    int, @lengthOf(  MetaDataX
-) match
-    Logon
-as
-    leftPad {""abc""	:
-zchar , 255
-: A	,},  }  MetaData falsey{
-    }
-    packet BodyLength
-{ Pad asx , @calculatedFrom(
-""a	b""// " ++ [27880; 37322]%N ++ runes_of_ascii "
-) string packetx
-//
-// packet A { u8 x, }
-`it's`, float64 uint8x
-`two words`
-    ,
-    zchar[ 007
-]	uint8x @calculatedFrom(
-    ""a\\"" //x
-)
-    `" ++ [28040; 24687; 31867; 22411]%N ++ runes_of_ascii "` ,}")).
-Eval vm_compute in ("<<<M4127>>>" ++ check (runes_of_ascii "// packet A { u8 x, }
-packet packetx {
-    @tag(7)
-    f64 o @calculatedFrom(""" ++ [233]%N ++ runes_of_ascii "t" ++ [233]%N ++ runes_of_ascii """),
-    repeat MetaDataX {
-        i8 Logon,
-    },
-    char[7] string_,
-    repeat o {
-        u16 Foo,
-        repeat i16 packetx,
-        match matchKey as As {
-            ""packet"" : roots,
-            42 : falsey,
-            0123456789 : matchKey,
-            ""\" ++ [233]%N ++ runes_of_ascii """ : zchar,
-            """ ++ [233]%N ++ runes_of_ascii "t" ++ [233]%N ++ runes_of_ascii """ : stringy,
-            [65535] : rootA,
-        },
-        repeat char[] lengthOf,
-    },
-    match x as falsey {
-        ""1"" : Packet,
-        1 : u,
-        0 : charz,
-        [""1""] : pack,
-        ""a\""b"" : options1,
-    },
-    @tag(0)
-    // trailing space 
-    // " ++ [128512]%N ++ runes_of_ascii " emoji
-    repeat int16 matchKey,
-    uint16 rootA ``,// c
-    match string_ as A {
-        [3, """ ++ [28040; 24687]%N ++ runes_of_ascii """] : zchar,
-    },
-}
-
-packet f32a {
-}
-
-MetaData falsey {
-    char[] Header,
-    metadata Pad `two words`,
-    zchar[10] calculatedFrom,
-    char[] lengthOf,
-    float32 u `line1
-        line2`,
-}")).
-Eval vm_compute in ("<<<M261>>>" ++ check (runes_of_ascii "root packet pack { match MetaDataX as Packet { 7: trueish , /// triple
-""" ++ [233]%N ++ runes_of_ascii "t" ++ [233]%N ++ runes_of_ascii """: MetaDataX
-,4294967296
-:msg_type  65535 : metadata ,3: x_y_z 42 :
-//
-/// triple
-_x// trailing space 
-,}	, } packet x_y_z
-    {repeat crc	metadata,match A as u8x  { [""it's"" ,""\" ++ [233]%N ++ runes_of_ascii """ ,
-0123456789  , ""1"" ,""abc""
-,""// no comment"", 4294967296 ]
-: pack ,007 : tag , } , } packet
-// c
-//x
-repeatCount  { @lengthOf(stringy )
-uint8 f32a , }options
-{
-BodyLength
-    =  '\x00' ; body
-    = ' ' ; } packet
-    charz { repeat Z9_ rootA `two words` , //
-@calculatedFrom( ""a\\""  ) f32a @lengthOf( msg_type
-    )	`say ""hi""` ,int8 As , string	stringy
-@lengthOf(options1 )
-`crlf
-line`,	i8 i8i8
-, f32a options1,
-@leftPad(
-    '\x00' )
-u
-    @calculatedFrom( """ ++ [128512]%N ++ runes_of_ascii """
-) ,
-@calculatedFrom(
-""\" ++ [233]%N ++ runes_of_ascii """ ) @tag(  00 ) @tag(
-0)
-int64 trueish@calculatedFrom(""`tick`"" // trailing space 
-)
-, @leftPad (
-' ' )
-    zchar@lengthOf( Z9_ )
-,} // " ++ [27880; 37322]%N)).
-Eval vm_compute in ("<<<M1266>>>" ++ check (runes_of_ascii "MetaData
     //	t
-    i8i8  {
-    u8 string_ `crlf
-line` ,} root // trailing space 
-packet MetaDataX
-{ @rightPad
-    //
-    ( ' '
-)char[] MetaDataX
-@lengthOf(
-packetx	) ,//	t
-} packet packetx	{ @lengthOf(
-uint8x )//
-trueish`doc`	,
-@calculatedFrom(
-    ""a\""b""
-)
-    @rightPad
-    (' '
-) @calculatedFrom(  ""a\\""
-) repeat zchar[7/// triple
-]asx	, @tag( 1
-) char[3 ] string_
-    , string_
-@lengthOf(
-Logon// a // b
-) ,	@rightPad ( // " ++ [128512]%N ++ runes_of_ascii " emoji
-'\x00' )@leftPad
-//x
-// " ++ [128512]%N ++ runes_of_ascii " emoji
-(
-    // " ++ [128512]%N ++ runes_of_ascii " emoji
-    '0' )	repeat
-As
-    // packet A { u8 x, }
-    { trueish { leftPad{i64 crc
-,
-u8 zchar @lengthOf(
-    f32a
-)
-    // packet A { u8 x, }
-    ,
-tag @lengthOf( Z9_ )	`// not a comment` , Z9_  _x , }
-,// packet A { u8 x, }
-char[ 00] Foo `a\` , }	,} , @tag( 7 // packet A { u8 x, }
-) char[
-    4294967296 ] u128	, }
-// packet A { u8 x, }
-")).
-Eval vm_compute in ("<<<M4027>>>" ++ check (runes_of_ascii "packet roots {
 }
 
-root packet metadata {
-    repeat float32 int,
-    _x @lengthOf(packetx) `
+MetaData trueish {
+    As roots `" ++ [28040; 24687; 31867; 22411]%N ++ runes_of_ascii "`,
+    char[00] Packet,
+}
+
+root packet roots {
+    int8 Logon,
+    body @lengthOf(lengthOf) `
     `,
-    repeat Packet Header,
-    @tag(0)
-    /// triple
-    float32 msg_type @calculatedFrom(""\" ++ [233]%N ++ runes_of_ascii """),
-    char[0] BodyLength,
-    len @calculatedFrom(""" ++ [28040; 24687]%N ++ runes_of_ascii """) `tab	here`,
-}
-
-root packet calculatedFrom {
-    @rightPad(' ')
-    tag @calculatedFrom(""// no comment""),
-    crc @calculatedFrom(""\" ++ [233]%N ++ runes_of_ascii """),
-    @lengthOf(u128)
-    @lengthOf(chars)
-    repeat lengthOf `tab	here`,
-    @tag(007)
-    char[] roots,
-    @calculatedFrom(""" ++ [233]%N ++ runes_of_ascii "t" ++ [233]%N ++ runes_of_ascii """)
-    repeat zchar[0] chars `crlf
-    line`,// `tick` ""quote"" 'q'
-    @calculatedFrom(""a\\"")
-    options1,
-    // " ++ [27880; 37322]%N ++ runes_of_ascii "
-    @rightPad()
-    Z9_ {
-        float32 x_y_z @lengthOf(asx),
-        repeat float32 asx,
-        f32 zchar `" ++ [28040; 24687; 31867; 22411]%N ++ runes_of_ascii "`,
-        char[007] Packet `a\`,
+    @rightPad('0')
+    Packet @calculatedFrom(""x y"") `a\`,
+    @lengthOf(T)
+    match matchKey as _x {
+        """ ++ [128512]%N ++ runes_of_ascii """ : stringy,
+        4294967296 : x_y_z,
+        ""\n"" : leftPad,
+        [42, 42, ""it's"", ""\n"", ""// no comment""] : asx,
     },
-}")).
-Eval vm_compute in ("<<<M1305>>>" ++ check (runes_of_ascii "MetaData Packet{	x_y_z // " ++ [27880; 37322]%N ++ runes_of_ascii "
-lengthOf`tab	here` ,
-rootA  u128 `" ++ [28040; 24687; 31867; 22411]%N ++ runes_of_ascii "`, char[ 10 ]	u8x `say ""hi""`, zchar[ 7 ]	i64_ , } packet charz{ @tag( 0 ) match
-    // `tick` ""quote"" 'q'
-    float as // " ++ [128512]%N ++ runes_of_ascii " emoji
-T{//	t
-""packet"" : i8i8, ""CRC32"" : string_ 65535:
-pack	, // @lengthOf(
-} , i32
-    matchKey @calculatedFrom( ""a\""b"") // `tick` ""quote"" 'q'
-, @tag(
-65535)repeat int {
-match// `tick` ""quote"" 'q'
-u8x as zchar{ ""\" ++ [233]%N ++ runes_of_ascii """ :BodyLength} , }, uint16 roots
-    , @rightPad	(
-' ' )int8 i64_ @calculatedFrom( ""it's"" ) , @tag( 255 )
-repeat rootA {repeat string
-Z9_
-, lengthOf roots `" ++ [233]%N ++ runes_of_ascii "`,zchar @calculatedFrom(""x y""  )	`{ , }`
-    , } ,
-    @tag(
-0 ) calculatedFrom
-Logon , } packet leftPad { uint64 A
-, match  pack as	u
-    { ""`tick`"" :
-f32a""1"" :	i8i8  ""\" ++ [233]%N ++ runes_of_ascii """: A ,} , }")).
-Eval vm_compute in ("<<<M4072>>>" ++ check (runes_of_ascii "
-packet Packet
-    { } 
-root
-	packet
-
-    pack { 
-@calculatedFrom(	""CRC32"" ) 
-string	pack
-
-    `two words` 
-// " ++ [128512]%N ++ runes_of_ascii " emoji
-  ,
-    @lengthOf( Pad ) @lengthOf(
-
-rootA)
-
-i16  A
-    `doc`, }
-	options
-{asx  = 00  ;	string_ =
-
-7  ;
-x_y_z  =0123456789;
-
-}packet uint8x
-
-    { int32 trueish  @lengthOf(
-
-roots
-) `say ""hi""` ,
-    @tag(
-
-    1)
-
-    @lengthOf(a1
-
-)	match	f32a as 
-MetaDataX
-{ 
-
-/// triple
-// trailing space 
-	7 
-:pack
-
-65535:
-//
-  // `tick` ""quote"" 'q'
-    calculatedFrom 
-    // a // b
-
-// " ++ [27880; 37322]%N ++ runes_of_ascii "
-
-  ,	[	3 
-, ""// no comment"" , 1 
-,
-    /// triple
-	/// triple
-
-  0123456789
-    ]	: 
-	// c
-      Z9_
-,	4294967296
-	: 
-a1  ,007
-	:
-int """ ++ [128512]%N ++ runes_of_ascii """  : o 
-,  } 
-,
-repeat calculatedFrom
-
-a1 
-`crlf
-line`
-	,
-}")).
-Eval vm_compute in ("<<<M274>>>" ++ check (runes_of_ascii "packet  int  { @calculatedFrom( """ ++ [28040; 24687]%N ++ runes_of_ascii """  )
-@tag(
-    // `tick` ""quote"" 'q'
-    007
-    ) options1 @calculatedFrom( ""CRC32"" ) `tab	here`
-, @lengthOf(
-As )
-    x x_y_z , repeat x
-{ i64 Z9_,
-zchar[
-    // c
-    007 ] body
-//	t
-// a // b
-@lengthOf( uint8x
-    )
-    // c
-    , f64  metadata @calculatedFrom( ""`tick`""	)
-    `tab	here`, }	, } packet msg_type {
-    repeat
-// trailing space 
-// c
-zchar[255 ]A, int64 f32a ,// " ++ [128512]%N ++ runes_of_ascii " emoji
-Pad
-@lengthOf( falsey
-)
-,
-match
-    falsey
-as
-x_y_z {
-7: // `tick` ""quote"" 'q'
-len
-,}
-/// triple
-// c
-, string // " ++ [27880; 37322]%N ++ runes_of_ascii "
-uint8x
-    `a\`,string rootA
-//x
-// a // b
-@lengthOf( int	) ,	}	root
-/// triple
-// `tick` ""quote"" 'q'
-packet pack { crc i64_ , }
-")).
-Eval vm_compute in ("<<<M3795>>>" ++ check (runes_of_ascii "root packet stringy {
-    u8x @lengthOf(A),
-    match f32a as options1 {
-        [""a\""b"", 0123456789] : trueish,
-        [
-            ""a\\"", 3, 65535, 255, """ ++ [233]%N ++ runes_of_ascii "t" ++ [233]%N ++ runes_of_ascii """,
-            65535, ""\" ++ [233]%N ++ runes_of_ascii """
-        ] : body,
-    },
-    @calculatedFrom(""" ++ [128512]%N ++ runes_of_ascii """)
-    repeat uint16 int,
-    repeat tag,
-    @leftPad()
-    match int as u8x {
-        [65535, """ ++ [233]%N ++ runes_of_ascii "t" ++ [233]%N ++ runes_of_ascii """] : metadata,
-    },
-    @rightPad()
-    repeat zchar[7] Logon `crlf
+    char[10] BodyLength,
+    @leftPad('0')
+    char[] Z9_ `crlf
     line`,
-    As {
-        int64 roots,
-    },// packet A { u8 x, }
+    string falsey,
+    int16 asx @calculatedFrom(""x y""),
+    u128 Z9_ `it's`,
+    @rightPad('0')
+    Packet {
+        // " ++ [128512]%N ++ runes_of_ascii " emoji
+        int64 float,
+        repeat leftPad {
+            repeat Z9_ {
+                match T as lengthOf {
+                    ""`tick`"" : msg_type,
+                    ""1"" : x_y_z,
+                    0 : chars,
+                },
+            },
+            repeat trueish {
+                zchar[255] crc `doc`,
+                char Logon @lengthOf(_x),
+                //
+                a1 `doc`,
+                //x
+                //	t
+            },
+            match msg_type as zchar {
+                ""it's"" : body,
+                """ ++ [28040; 24687]%N ++ runes_of_ascii """ : u,
+            },
+        },
+    },
+}
+
+packet As {
+    @leftPad('\x00')
     @tag(255)
-    int64 charz @calculatedFrom(""a	b""),
-    BodyLength lengthOf,
-    float64 As,
-}
-
-packet Foo {
-    char[4294967296] float `u8 x,`,
-}
-
-packet _x {
-}")).
-Eval vm_compute in ("<<<M4552>>>" ++ check (runes_of_ascii "
-packet packetx {  @calculatedFrom(  ""packet"" ) 
-// " ++ [27880; 37322]%N ++ runes_of_ascii "
-	@calculatedFrom(  ""// no comment""	)
-
-    @leftPad /// triple
-(
-'0'
-
-) 	 //	t
-    Z9_
-T, 
-leftPad
-uint8x,
-
-@tag( 4294967296
+    @lengthOf(o)
+    zchar[42] string_ @calculatedFrom(""a\""b"") `" ++ [28040; 24687; 31867; 22411]%N ++ runes_of_ascii "`,
+    char[] repeatCount @lengthOf(calculatedFrom),
+    metadata @calculatedFrom(""abc"") `two words`,
+    // `tick` ""quote"" 'q'
+    // c
+    @lengthOf(matchKey)
+    match packetx as falsey {
+        007 : A,
+        ""1"" : packetx,
         //
+        7 : charz,
+        [65535] : stringy,
+        65535 : a1,
+        [""a	b"", 1] : Logon,
+        // a // b
+        // " ++ [128512]%N ++ runes_of_ascii " emoji
+    },
+}")).
+Eval vm_compute in ("<<<M1940>>>" ++ check (runes_of_ascii "packet BodyLength {
+    leftPad lengthOf,
+    float rootA `it's`,
+    @leftPad('0')
+    repeat BodyLength,
+    @rightPad()
+    i16 falsey @lengthOf(i64_),// `tick` ""quote"" 'q'
+    repeat char[0123456789] uint8x,
+    repeat f64 i64_,
+    a1 tag `" ++ [233]%N ++ runes_of_ascii "`,
+    char[10] packetx `say ""hi""`,
+    repeat tag metadata `tab	here`,
+}
 
-)
-leftPad//
-    {roots
+/// triple
+options {
+    crc = """";
+}
 
-{char	options1  , 
-}  ,
-match
-	Pad
+packet int {
+    repeat zchar[255] i64_ `two words`,
+    string tag @lengthOf(Header),
+    char chars,
+    @lengthOf(crc)
+    match asx as Foo {
+        7 : BodyLength,
+        ""packet"" : Z9_,
+        007 : matchKey,
+    },
+    uint16 metadata,
+    i64_ {
+        repeat u8 msg_type,
+        stringy {
+            char[0123456789] o @calculatedFrom(""\n"") `" ++ [233]%N ++ runes_of_ascii "`,
+        },
+        zchar[00] stringy `line1
+        line2`,
+    },
+    @leftPad('0')
+    match uint8x as u128 {
+        [1, ""abc""] : _x,
+        ""a	b"" : Packet,
+        // c
+        3 : _x,
+        ""`tick`"" : packetx,
+        ""\n"" : Header,
+    },
+    x @calculatedFrom(""\n""),
+    zchar[65535] Packet,
+}
 
-    as
-int  {	[
-    10	] :roots  //	t
-,[
-	""CRC32""
+MetaData Logon {
+}
+
+packet packetx {
+    @calculatedFrom(""a\\"")
+    match roots as Foo {
+        [""\n"", 4294967296] : asx,
+        00 : o,
+        ""{,}"" : Header,
+        255 : packetx,
+        [255, 4294967296] : MetaDataX,
+    },
+}")).
+Eval vm_compute in ("<<<M1535>>>" ++ check (runes_of_ascii "  options  {
+
+    StringPrefixLenType
+= u16 
+; ArrayPrefixLenType =
+    u8  ;
+
+    FixedStringPadFromLeft =
+
+true	;
+FixedStringPadChar= 
+' '
+
+;
+}
+    packet Quote  { int64  OrderId
+, char[]Ref
+,
+
+    @leftPad
+( '0'  )
+char[ 5
+	]
+
+    price ,	}packet	Heartbeat 
+{zchar[	3 ]venue
+, string
+Flags,
+
+    }packet Trade  {	repeat
+
+    InTag787 {i32
+
+venue
+	,char[
+5
+] sym
+
+    ,	repeat 
+InPx98 
+{
+
+char[11	]
+
+    Qty
+,
+Heartbeat ,char[]
+price,
+u32 x ,float64 count
 
 ,
-    ""1"", 3
+    repeat
 
+    Quote 
+, },
+zchar[ 
+7
+]Note
+    ,	repeat
+
+char[  1 ]
+
+Tail
+	,
+
+}
+
+,
+repeat  char[
+2 
+]
+	seqNo
+
+, 
+InTail55 {
+repeat Quote	, 
+string msgKind , InPx18{char[]
+count 
+,  repeat
+	Quote 
+,
+uint16
+	Qty
+	,	},	char[4  ]seqNo	,repeat Heartbeat ,repeat
+string sym ,
+
+}  ,	repeat
+Quote
+, Heartbeat ,@leftPad
+(  ' '
+
+) char[ 10	] 
+OrderId
+,
+    }
+root
+
+    packet 
+Fill{ Heartbeat
     ,
 
-7	, 	 // " ++ [27880; 37322]%N ++ runes_of_ascii "
-0
-,	0	, 
-/// triple
-    	""CRC32""
+uint32
+count 
 ,
-7  
-  // `tick` ""quote"" 'q'
-    // a // b
-    ]
+u8
+    OrderId 
+, match
+OrderId
+as
 
-:  Packet
+Body
+	{	96
+:	Quote
+,
+195	:
+	Trade , 187
 
-,  1
-	:
+:
+Heartbeat , }
+    ,  u32 venue
+@calculatedFrom( ""CRC32""
 
-tag  ,1:
-    matchKey
-[
-42]
-	:
-_x	} , 
-repeat
-tag 
-  // packet A { u8 x, }
-  	// " ++ [128512]%N ++ runes_of_ascii " emoji
-  	{
-metadata 
-`" ++ [233]%N ++ runes_of_ascii "` ,  }, 	 //	t
-u
-    `a\`,
-	}
-	,
-
-    }
+    )
+	, 
+}
 ")).
-Eval vm_compute in ("<<<M221>>>" ++ check (runes_of_ascii "packet
-matchKey { match Header as chars
-{ [ """ ++ [233]%N ++ runes_of_ascii "t" ++ [233]%N ++ runes_of_ascii """ ,0 ]	: body
+Eval vm_compute in ("<<<M208>>>" ++ check (runes_of_ascii "packet zchar{
+    uint8x { MetaDataX , match stringy as calculatedFrom { """" : options1,""// no comment""
+: //x
+u
+""\" ++ [233]%N ++ runes_of_ascii """
+:  body
+, [
+""abc""
+    , ""it's"" , // c
+007 ] : packetx
+//	t
+// @lengthOf(
+,65535:
+roots
+, } ,  zchar[	10 ]
+lengthOf`two words`  ,	} // trailing space 
 ,
-    [
-    42,10 ]
-    :msg_type
-,
-""" ++ [128512]%N ++ runes_of_ascii """
-: options1 ,7 :
-    roots ""\n"" :
-    // c
-    packetx,	} ,
-    zchar[
-0 ]
-A
-@lengthOf(  int )
-, char[] Header `
-` ,// trailing space 
-repeat
-    float { repeat
-o
-    , // `tick` ""quote"" 'q'
-repeat
-int32 x_y_z `
-` , }	,@tag( 0 ) u64 string_ @calculatedFrom(""`tick`"" ) // " ++ [27880; 37322]%N ++ runes_of_ascii "
-`two words` , calculatedFrom // " ++ [27880; 37322]%N ++ runes_of_ascii "
-{ matchKey
 //
 // packet A { u8 x, }
-, // packet A { u8 x, }
-rootA
-, } ,
-}
-    options // " ++ [128512]%N ++ runes_of_ascii " emoji
-{ chars =	"""" //
-;
-    As = true	; Foo =
-7	; lengthOf =  ""a\\"" }
-
-")).
-Eval vm_compute in ("<<<M1148>>>" ++ check (runes_of_ascii "// packet A { u8 x, }
-packet
-    Foo { }
-    packet i64_ {asx @lengthOf( a1 )`two words` , repeat
-i64_ {char[]u `crlf
-line`,char[
-    10
-    // @lengthOf(
-    ] metadata,
-    //
-    a1  {
-    repeat zchar[
-    1
-    ] len , char[ 00 // packet A { u8 x, }
-]Z9_@calculatedFrom( ""a\\"" ) // " ++ [27880; 37322]%N ++ runes_of_ascii "
-,	zchar[ 7 ] Header
-    @lengthOf(	x ) , repeat//
-pack,// @lengthOf(
-}  , // trailing space 
-}
-    //x
-    ,  match tag as u8x { ""{,}""
-    : zchar ,  1
-: metadata , """ ++ [233]%N ++ runes_of_ascii "t" ++ [233]%N ++ runes_of_ascii """
-    :
-a1 """ ++ [233]%N ++ runes_of_ascii "t" ++ [233]%N ++ runes_of_ascii """ : chars //
-,[ ""a\\""]  :crc	} ,
-    tag@calculatedFrom( """ ++ [128512]%N ++ runes_of_ascii """) , }
-//
-")).
-Eval vm_compute in ("<<<M157>>>" ++ check (runes_of_ascii "root
-packet o { @leftPad (
-    '0'  )repeat uint16 o // `tick` ""quote"" 'q'
-,// `tick` ""quote"" 'q'
-@tag( 1
-    // `tick` ""quote"" 'q'
+} root
+packet Header{repeat f32a o `two words`,
+    @lengthOf(
+    f32a ) char[	42
+]
+    uint8x ,	@tag( 42
+)
+    float@lengthOf(
+MetaDataX  ) , string T	, match _x as leftPad
+    { 0123456789 :
+    stringy, } ,  @leftPad // @lengthOf(
+( )repeat uint8x// c
+{
+string_ { char[ 255] a1 @calculatedFrom( ""abc""
+), metadata @lengthOf(	asx ),
+    } , repeat falsey /// triple
+,
+    Logon { As ,
+repeat char[]// trailing space 
+u
+    , } , },
+    @leftPad
+    (	' '
     )
-//x
-// " ++ [128512]%N ++ runes_of_ascii " emoji
-@tag( 65535 ) u32 options1 ,@lengthOf( i8i8) @lengthOf(int ) @leftPad// " ++ [27880; 37322]%N ++ runes_of_ascii "
-() char[  42 ] len @calculatedFrom( ""packet"" ) ,
-    u32 Foo @calculatedFrom( ""a\\"") ,
-    } packet a1 {@lengthOf(
-    A /// triple
-)	Foo MetaDataX `it's`, Z9_ metadata
-    //
-    `" ++ [28040; 24687; 31867; 22411]%N ++ runes_of_ascii "` ,
-match MetaDataX
-    as falsey { [ 42
-    ]
-    :body // " ++ [128512]%N ++ runes_of_ascii " emoji
-[""packet""	, 4294967296]
-    :  A} , Z9_ ,}")).
-Eval vm_compute in ("<<<M648>>>" ++ check (runes_of_ascii "MetaData i8i8 { char[0123456789
-    ]
-    body `doc`, // c
-} packet uint8x{pack { char u `crlf
-line`
-, float , zchar[ 007] //	t
-A ,} , char[]
-    /// triple
-    calculatedFrom `
-` , char[
-    42 ] matchKey @calculatedFrom(
-//
-// " ++ [27880; 37322]%N ++ runes_of_ascii "
-""a\\"")`` , }  root  packet int { @rightPad (
-'0'// packet A { u8 x, }
-) Pad  { match zchar as asx {
-    [""a	b"" , 42 ] :Logon//
-} ,
-Packet
-    {
-    zchar[ 4294967296 ]
-    A ,}
-//	t
-//
-, match x as float {  ""x y""	: o
-    // a // b
-    ,
-    1	: calculatedFrom}, } ,}
-//
-")).
-Eval vm_compute in ("<<<M754>>>" ++ check (runes_of_ascii "packet falsey	{ }packet
-i64_ {i64
-metadata @lengthOf(
-    len ) , repeat i16// a // b
-float , } packet Pad
-{ @lengthOf( Logon
-)Packet { string matchKey , zchar[65535] metadata , string
-metadata `" ++ [28040; 24687; 31867; 22411]%N ++ runes_of_ascii "` ,repeat char[ 0123456789 ]
-    rootA ,
-    }, @tag(
-4294967296 ) repeat
-    a1
-    // `tick` ""quote"" 'q'
-    float`// not a comment`	,repeat char[//	t
-3
-]	As`{ , }`
-    ,
-@calculatedFrom(
-    ""packet"" ) match T	as packetx{ ""a\\"" : Packet
+char[ 10
+] charz
+@lengthOf(  float ), @calculatedFrom(
+    """ ++ [233]%N ++ runes_of_ascii "t" ++ [233]%N ++ runes_of_ascii """
+) i64 trueish
+    `two words`
+, } options{ options1	=7
+; u
+    // " ++ [27880; 37322]%N ++ runes_of_ascii "
+    = """" ; } 	 ")).
+Eval vm_compute in ("<<<M54>>>" ++ check (runes_of_ascii "root packet calculatedFrom
+{ /// triple
+@calculatedFrom( // packet A { u8 x, }
+""{,}"" ) match asx
+as i8i8 { ""CRC32"" :f32a	,
+    ""// no comment""	:Packet
+    ,// trailing space 
+}
 ,
-    // a // b
-    } /// triple
+    repeat zchar[ 7 ] len , //
+match	options1// c
+as string_	{""" ++ [128512]%N ++ runes_of_ascii """ : metadata ,	[""\n""
+// `tick` ""quote"" 'q'
+//
 ,
-    }")).
-Eval vm_compute in ("<<<M246>>>" ++ check (runes_of_ascii "packet // c
-Z9_ {
-As
-    x
-, @rightPad ( ' ') @lengthOf( Header) @rightPad(  ' '
-)match u as  string_{ ""a	b""
-    : Pad
-    // trailing space 
-    ,1: T , [ """" , 255, ""abc""
-, 7
-    //	t
-    ] :
-BodyLength ,  },match falsey
-as  metadata{ 42: float ,
-    // `tick` ""quote"" 'q'
-    } , match lengthOf
-as As {1
+    ""CRC32"" , ""a\""b""]
 :
-As, [	"""" ,	""a\\"" ,
-""{,}"" , ""it's"" ,
-    //
-    42,""a\\"" , 0 // trailing space 
-, 3  ]  : f32a, } , // packet A { u8 x, }
-repeat float64 roots ,	}
+// " ++ [128512]%N ++ runes_of_ascii " emoji
+// " ++ [128512]%N ++ runes_of_ascii " emoji
+x_y_z // " ++ [27880; 37322]%N ++ runes_of_ascii "
+, 42
+: string_	},@lengthOf(
+msg_type) string Pad
+// trailing space 
+// @lengthOf(
+`tab	here` ,
+f32a
+, match  Logon as stringy { 007
+    :
+    metadata	, [ 255 , 10 ] : matchKey, [
+10 ,""1"",	""`tick`"" , 0]:roots , 255
+// @lengthOf(
+// c
+: o,	[ 1 ]
+: msg_type  , 0123456789
+: falsey	} , } root packet
+crc { }
+    options
+    { falsey =
+false ;len =
+""\" ++ [233]%N ++ runes_of_ascii """// " ++ [27880; 37322]%N ++ runes_of_ascii "
+;A
+=
+""a	b""	lengthOf	= ""1""}
 ")).
-Eval vm_compute in ("<<<M4135>>>" ++ check (runes_of_ascii "MetaData metadata {
-}
-
-packet u {
-    //
+Eval vm_compute in ("<<<M150>>>" ++ check (runes_of_ascii "packet
+    Header	{	repeat string
+    Header
+,
+repeat options1  ,	zchar[
+    //	t
+    00 ] matchKey ,} options
+// @lengthOf(
+// `tick` ""quote"" 'q'
+{charz= ""\n"" ; // a // b
+BodyLength = ""x y"" u8x
+    = ""x y""
+    u // `tick` ""quote"" 'q'
+= 255 }
+MetaData u8x{
+// a // b
+// c
+Z9_
+i8i8 , float32  stringy , float msg_type // `tick` ""quote"" 'q'
+`doc`
+    ,
+calculatedFrom T , Foo T `a\` , }	root
+    packet
+    roots
+    {	@tag( 00
+) /// triple
+match// `tick` ""quote"" 'q'
+len
+    as roots {
+    // @lengthOf(
+    [ 4294967296 ]
+    : tag ""// no comment"" :float ,"""" : uint8x ,
+// " ++ [27880; 37322]%N ++ runes_of_ascii "
+// trailing space 
+007
+    // " ++ [27880; 37322]%N ++ runes_of_ascii "
+    :
+    options1 , } , }")).
+Eval vm_compute in ("<<<M1841>>>" ++ check (runes_of_ascii "packet i8i8 {
+    char[] string_ `tab	here`,
     @lengthOf(T)
-    // packet A { u8 x, }
-    @lengthOf(u)
-    /// triple
-    @leftPad('0')
-    repeat uint8 x_y_z `" ++ [28040; 24687; 31867; 22411]%N ++ runes_of_ascii "`,
-}
+    @lengthOf(uint8x)
+    @rightPad('\x00')
+    zchar[4294967296] f32a @calculatedFrom(""CRC32"") `it's`,
+}// @lengthOf(
 
 root packet A {
-    @tag(10)
-    repeat zchar[0] asx `doc`,
-    char[7] float @lengthOf(BodyLength) `crlf
-        line`,
-    zchar[0123456789] u128,
     @rightPad()
-    repeat zchar[255] Packet ``,
-    BodyLength Pad,
-    @tag(1)
-    zchar[10] float @lengthOf(roots),
+    @calculatedFrom(""" ++ [233]%N ++ runes_of_ascii "t" ++ [233]%N ++ runes_of_ascii """)
+    string T `crlf
+        line`,
+    u64 falsey `two words`,
+    zchar[65535] lengthOf `doc`,
+    match crc as int {
+        [""packet"", ""it's""] : body,
+        007 : leftPad,
+        ""{,}"" : Z9_,
+        [
+            0123456789, 00, ""a\\"", """ ++ [128512]%N ++ runes_of_ascii """, ""\" ++ [233]%N ++ runes_of_ascii """,
+            ""`tick`"", ""it's"", """ ++ [233]%N ++ runes_of_ascii "t" ++ [233]%N ++ runes_of_ascii """
+        ] : x_y_z,
+    },
+}")).
+Eval vm_compute in ("<<<M1604>>>" ++ check (runes_of_ascii "MetaData rootA {
+}
+
+options {
+    rootA = '\x00'
+    zchar = '0'
+    rootA = float64;
+    trueish = 3
+    i64_ = float64;
+}
+
+options {
+    body = '0';
+    T = ""CRC32"";
+    matchKey = char[];
+}
+
+packet rootA {
+    // " ++ [128512]%N ++ runes_of_ascii " emoji
+    @lengthOf(Z9_)
+    @rightPad('0')
+    Packet calculatedFrom,
+}
+
+packet body {
+    match metadata as asx {
+        3 : Header,
+        3 : packetx,
+        [10] : Packet,
+        """" : pack,
+        10 : pack,
+        [255, """", 00, ""it's""] : x,
+    },
 }")).
 Eval vm_compute in ("<<<M173>>>" ++ check (runes_of_ascii "MetaData T  {
 char[] metadata ,
@@ -1429,1130 +505,573 @@ packet stringy {
 , zchar Pad ,u32 f32a
     `doc`
 , } // `tick` ""quote"" 'q'")).
-Eval vm_compute in ("<<<M438>>>" ++ check (runes_of_ascii "packet Packet {
-@calculatedFrom( ""a	b"" ) int16 int
-    @lengthOf(
+Eval vm_compute in ("<<<M2065>>>" ++ check (runes_of_ascii "
+packet 
 // @lengthOf(
-// packet A { u8 x, }
-rootA ) ,Foo{ repeat string int
-    // `tick` ""quote"" 'q'
-    ,
-    rootA packetx
-    ,match
-    uint8x as Pad{ 1	:
-    // packet A { u8 x, }
-    Foo , 3	:
-chars , 255
-:
-//
-// `tick` ""quote"" 'q'
-charz ""x y""
-: lengthOf , [
-    4294967296 ,	""" ++ [233]%N ++ runes_of_ascii "t" ++ [233]%N ++ runes_of_ascii """//x
-] : crc } //x
-,	} //	t
-,
-    string
-msg_type , }
-
-")).
-Eval vm_compute in ("<<<M3693>>>" ++ check (runes_of_ascii "root packet x {
-    @calculatedFrom(""a\\"")
-    zchar[42] float @calculatedFrom(""a\""b"") `
-    `,
-}
-
-MetaData o {
-    int8 BodyLength,
-    string len,
-    string len,
-    float falsey,
-    T float,
-}
-
-MetaData pack {
-    /// triple
-    charz o `// not a comment`,
-    float64 f32a `tab	here`,
-    int32 u8x `// not a comment`,
-    char[10] a1,
-    float32 options1,
-}// `tick` ""quote"" 'q'")).
-Eval vm_compute in ("<<<M1269>>>" ++ check (runes_of_ascii "packet BodyLength
-{ @tag( 255 ) match tag as
-//	t
 // " ++ [128512]%N ++ runes_of_ascii " emoji
-x_y_z  {	7:Pad , ""a\""b"" :
-matchKey	, [ // `tick` ""quote"" 'q'
-42 , ""`tick`"" ,
-    //
-    ""// no comment""	, """"
-    // " ++ [128512]%N ++ runes_of_ascii " emoji
-    ,  1
-,
-"""" , 7 , """"
-    // `tick` ""quote"" 'q'
-    ]:
-stringy
-    , } , f64 repeatCount `a\`, }
-    // c
-    packet zchar// `tick` ""quote"" 'q'
-{	i8 _x `tab	here`	, } MetaData x { }
-")).
-Eval vm_compute in ("<<<M1311>>>" ++ check (runes_of_ascii "root packet Header {
-    @lengthOf( stringy ) calculatedFrom @lengthOf(  chars  ) , char[ 255
-    ]
-    // `tick` ""quote"" 'q'
-    metadata``	, u8 MetaDataX `crlf
-line`
-,} options
-{ } options
-{uint8x = 42 ; T
-    = i32;
-    calculatedFrom // `tick` ""quote"" 'q'
-=
-""// no comment""	;
-    u8x =
-0
-    }
-    root packet roots {repeat i64 falsey //x
-,
-}")).
-Eval vm_compute in ("<<<M1131>>>" ++ check (runes_of_ascii "packet
-int // a // b
-{  match pack as charz {10  :// a // b
-i8i8,// @lengthOf(
-10 : MetaDataX , [ 42 ]:options1 , } , repeat uint16 zchar , char[007
-    ] asx ,
-@lengthOf(// " ++ [27880; 37322]%N ++ runes_of_ascii "
+  Foo{
+@calculatedFrom(
+    """")  @calculatedFrom( ""1""
+)@rightPad (
+
+    ) int32
+
 As
-)  @calculatedFrom( ""1"" )
-    lengthOf  @lengthOf(
-BodyLength
-    )`tab	here`
-,char[]T `// not a comment` ,// packet A { u8 x, }
-@leftPad(
-) packetx , }")).
-Eval vm_compute in ("<<<M65>>>" ++ check (runes_of_ascii "  options	{ string_
-=true; } options
-{ T
-= false}
-packet
-u8x { @lengthOf( int
-    //
-    )
-zchar[ 255 ] BodyLength , } // trailing space 
-root
-packet
-    f32a  { }packet roots
-{ Foo
-    , repeat char[ 007 ] Pad
-,repeat  int8
-packetx
-    ,
-    match Z9_ as T	{
-00 :A , ""a\""b"" :
-    falsey  , //
-""CRC32""
-:a1
-,
-    }	, }
-")).
-Eval vm_compute in ("<<<M1993>>>" ++ check (runes_of_ascii "MetaData
-    u { }  options {
-// c
-// @lengthOf(
-float = int8 ;rootA =false ; As =	int16 // `tick` ""quote"" 'q'
-repeatCount
-    // trailing space 
-    =
-    int16
-; u8x =
-    //	t
-    '\x00' ; } options	false
-    repeatCount
-= 0
-u128
-    //
-    = false ; i64_
-// trailing space 
-// `tick` ""quote"" 'q'
-= '0' ; //	t
-}
-")).
-Eval vm_compute in ("<<<M2001>>>" ++ check (runes_of_ascii "MetaData
-    u { }  options {
-// c
-// @lengthOf(
-float = int8 ;rootA =false ; As =	int16 // `tick` ""quote"" 'q'
-repeatCount
-    // trailing space 
-    =
-    int16
-; u8x =
-    //	t
-    '\x00' ; } options	{
-    repeatCount
-= = 0
-u128
-    //
-    = false ; i64_
-// trailing space 
-// `tick` ""quote"" 'q'
-= '0' ; //	t
-}
-")).
-Eval vm_compute in ("<<<M957>>>" ++ check (runes_of_ascii "packet body {
-@rightPad
-    ( ' ' )
-    msg_type{match u as zchar
-{
-""""// c
-:metadata
-, } ,As @calculatedFrom( ""CRC32""
-// " ++ [128512]%N ++ runes_of_ascii " emoji
-// " ++ [27880; 37322]%N ++ runes_of_ascii "
-) ,
-//x
-// @lengthOf(
-}
-, repeat u16 tag
-,
-    repeat MetaDataX ,
-} packet Foo {
-@rightPad() @leftPad( ' '  ) @calculatedFrom( ""\" ++ [233]%N ++ runes_of_ascii """
-    ) i8 i64_ ,
-    repeat uint16 float ,  }")).
-Eval vm_compute in ("<<<M1992>>>" ++ check (runes_of_ascii "MetaData
-    u { }  options {
-// c
-// @lengthOf(
-float = int8 ;rootA =false ; As =	int16 // `tick` ""quote"" 'q'
-repeatCount
-    // trailing space 
-    =
-    int16
-; u8x =
-    //	t
-    '\x00' ; } options	repeatCount
-    {
-= 0
-u128
-    //
-    = false ; i64_
-// trailing space 
-// `tick` ""quote"" 'q'
-= '0' ; //	t
-}
-")).
-Eval vm_compute in ("<<<M1988>>>" ++ check (runes_of_ascii "MetaData
-    u { }  options {
-// c
-// @lengthOf(
-float = int8 ;rootA =false ; As =	int16 // `tick` ""quote"" 'q'
-repeatCount
-    // trailing space 
-    =
-    int16
-; u8x =
-    //	t
-    '\x00' ; } zchar[	{
-    repeatCount
-= 0
-u128
-    //
-    = false ; i64_
-// trailing space 
-// `tick` ""quote"" 'q'
-= '0' ; //	t
-}
-")).
-Eval vm_compute in ("<<<M2020>>>" ++ check (runes_of_ascii "MetaData
-    u { }  options {
-// c
-// @lengthOf(
-float = int8 ;rootA =false ; As =	int16 // `tick` ""quote"" 'q'
-repeatCount
-    // trailing space 
-    =
-    int16
-; u8x =
-    //	t
-    '\x00' ; } options	{
-    repeatCount
-= 0
-u128
-    //
-    =  ; i64_
-// trailing space 
-// `tick` ""quote"" 'q'
-= '0' ; //	t
-}
-")).
-Eval vm_compute in ("<<<M40>>>" ++ check (runes_of_ascii "packet// " ++ [128512]%N ++ runes_of_ascii " emoji
-charz
-    {
-repeat options1 {char x_y_z
-/// triple
-//x
-, T	{ string_ @calculatedFrom(""1"") , } ,
-f64
-    crc ,
-u64 A
-// trailing space 
-/// triple
-@calculatedFrom(""CRC32""	), } ,} MetaData MetaDataX //	t
-{
-}
-root packet
-u128{ string_  {
-    repeat pack {
-As matchKey , } ,} ,
-}
-")).
-Eval vm_compute in ("<<<M445>>>" ++ check (runes_of_ascii "packet  calculatedFrom { @calculatedFrom( ""a	b"" ) T // packet A { u8 x, }
-{ zchar[ 0123456789 ]
-    falsey `say ""hi""`
-, match o as
-    // " ++ [27880; 37322]%N ++ runes_of_ascii "
-    matchKey {
-    [ ""`tick`""	,
-    //
-    ""it's""
-] :int , 1 :	float // a // b
-, } ,string Foo @calculatedFrom( ""a\\""), // `tick` ""quote"" 'q'
-} ,	}
-")).
-Eval vm_compute in ("<<<M4373>>>" ++ check (runes_of_ascii "options {
-    Foo = true;
-}
+	@calculatedFrom(
+    """"  // a // b
+    	) `say ""hi""` // c
+	, @calculatedFrom(
 
-packet u128 {
-    @calculatedFrom(""x y"")
-    lengthOf @lengthOf(msg_type) `tab	here`,
-    asx x,
-    zchar[10] i64_,
-    repeat body,
-    char[255] asx @calculatedFrom(""" ++ [128512]%N ++ runes_of_ascii """) `crlf
-    line`,
-    u128 string_,
-    int {
-        zchar[7] _x,
-    },
+    ""\n"")
+	    // trailing space 
+	/// triple
+	char[  // trailing space 
+
+  65535]asx
+
+, repeat
+
+int8
+trueish	`{ , }` ,
+
+    }
+root  packet
+    lengthOf  {
+
 }")).
-Eval vm_compute in ("<<<M72>>>" ++ check (runes_of_ascii "MetaData len //	t
-{ f64 calculatedFrom , x_y_z	x
-,} packet repeatCount { @lengthOf(pack ) match
-x_y_z as o // " ++ [27880; 37322]%N ++ runes_of_ascii "
-{ 7:
-Header
-// `tick` ""quote"" 'q'
-// a // b
-} , } options { lengthOf  = true; }
-packet  leftPad
-    {
-    MetaDataX @lengthOf( T ) `two words` ,
-    }")).
-Eval vm_compute in ("<<<M3604>>>" ++ check (runes_of_ascii "packet P1 {
-    u8 a,
-}
-packet P2 {
-    P1,
-}
-packet P3 {
-    P2,
-    P1,
-}
-packet P4 {
-    repeat P3,
-    P2,
-}
-root packet P5 {
-    P4,
-    P3,
-    P1,
-    u8 K,
-    match K as Body {
-        4 : P4,
-        3 : P3,
-        2 : P2,
-        1 : P1,
-    },
-}
-")).
-Eval vm_compute in ("<<<M1493>>>" ++ check (runes_of_ascii "packet
-//	t
-// trailing space 
-_x _x {
-// packet A { u8 x, }
-// c
-char[
-3
-    ] u8x @lengthOf(
-u8x ) , @calculatedFrom(""" ++ [128512]%N ++ runes_of_ascii """ // @lengthOf(
-)
-i16	Foo
-@lengthOf(	string_
-    )`doc`	, repeat	i64 metadata , @lengthOf( string_
-) i8 // c
-u  `line1
-line2`	,
-}
-")).
-Eval vm_compute in ("<<<M1505>>>" ++ check (runes_of_ascii "packet
-//	t
-// trailing space 
-_x {
-// packet A { u8 x, }
-// c
-uint16
-3
-    ] u8x @lengthOf(
-u8x ) , @calculatedFrom(""" ++ [128512]%N ++ runes_of_ascii """ // @lengthOf(
-)
-i16	Foo
-@lengthOf(	string_
-    )`doc`	, repeat	i64 metadata , @lengthOf( string_
-) i8 // c
-u  `line1
-line2`	,
-}
-")).
-Eval vm_compute in ("<<<M1559>>>" ++ check (runes_of_ascii "packet
-//	t
-// trailing space 
-_x {
-// packet A { u8 x, }
-// c
-char[
-3
-    ] u8x @lengthOf(
-u8x ) , @calculatedFrom(""" ++ [128512]%N ++ runes_of_ascii """ // @lengthOf(
-)
-Foo	i16
-@lengthOf(	string_
-    )`doc`	, repeat	i64 metadata , @lengthOf( string_
-) i8 // c
-u  `line1
-line2`	,
-}
-")).
-Eval vm_compute in ("<<<M1552>>>" ++ check (runes_of_ascii "packet
-//	t
-// trailing space 
-_x {
-// packet A { u8 x, }
-// c
-char[
-3
-    ] u8x @lengthOf(
-u8x ) , @calculatedFrom(""" ++ [128512]%N ++ runes_of_ascii """ // @lengthOf(
+Eval vm_compute in ("<<<M1733>>>" ++ check (runes_of_ascii "
 
-i16	Foo
-@lengthOf(	string_
-    )`doc`	, repeat	i64 metadata , @lengthOf( string_
-) i8 // c
-u  `line1
-line2`	,
-}
-")).
-Eval vm_compute in ("<<<M1605>>>" ++ check (runes_of_ascii "packet
-//	t
-// trailing space 
-_x {
-// packet A { u8 x, }
-// c
-char[
-3
-    ] u8x @lengthOf(
-u8x ) , @calculatedFrom(""" ++ [128512]%N ++ runes_of_ascii """ // @lengthOf(
-)
-i16	Foo
-@lengthOf(	string_
-    )`doc`	, repeat	i64 ' ' , @lengthOf( string_
-) i8 // c
-u  `line1
-line2`	,
-}
-")).
-Eval vm_compute in ("<<<M923>>>" ++ check (runes_of_ascii "packet options1 { @leftPad
-    (
-    '0' )
-repeat char[1 ] // " ++ [27880; 37322]%N ++ runes_of_ascii "
-roots  `
-` , i32 A`
-`, repeat
-    char[ 3] stringy // `tick` ""quote"" 'q'
-, repeat	f64
-    Z9_
-`tab	here`, }
-    packet T	{
-    @tag( 00	)repeat float
-`say ""hi""`,} /// triple")).
-Eval vm_compute in ("<<<M3933>>>" ++ check (runes_of_ascii "packet metadata {
-    @lengthOf(i8i8)
-    match BodyLength as Foo {
-        3 : len,
-    },
-    body @lengthOf(roots),
-    f32a x,
-}
+  root
 
-root packet i8i8 {
-    zchar[10] i64_ @calculatedFrom(""a\\"") `
-        `,
-}// packet A { u8 x, }")).
-Eval vm_compute in ("<<<M428>>>" ++ check (runes_of_ascii "root	packet  As { zchar[0123456789] MetaDataX ,
-    zchar[10 ] falsey
-    , @calculatedFrom( """ ++ [128512]%N ++ runes_of_ascii """ )pack ,	A
-{repeat u8x tag ,  int64 T @lengthOf( Packet
-) ,	x Logon
-    //x
-    , options1 @calculatedFrom( ""a	b"") , } , } 	 ")).
-Eval vm_compute in ("<<<M4124>>>" ++ check (runes_of_ascii "packet _x {
-    // packet A { u8 x, }
+    packet
+
+tag
+	{ }packet
+
+    MetaDataX{char[ 
+007] 
+
     // c
-    char[3] u8x @lengthOf(u8x),
-    @calculatedFrom(""" ++ [128512]%N ++ runes_of_ascii """)
-    i16 Foo @lengthOf(string_) `doc`,
-    repeat metadata,
-    @lengthOf(string_)
-    i8 u `line1
-    line2`,
-}")).
-Eval vm_compute in ("<<<M872>>>" ++ check (runes_of_ascii "
-options
-    // @lengthOf(
-    {
-    } root packet
-    // c
-    falsey {}MetaData _x {}
-packet
-// packet A { u8 x, }
-// trailing space 
-o
+  /// triple
+asx 
+@calculatedFrom(
+
+""a\""b""
+    ) `say ""hi""` 	 // " ++ [27880; 37322]%N ++ runes_of_ascii "
+  ,
+    @tag( 
+4294967296
+
+)
+
+char[ 1	//x
+	] packetx @calculatedFrom(""a\""b""
+
+    ) ,
     // " ++ [128512]%N ++ runes_of_ascii " emoji
-    {falsey , @tag(3
-) // `tick` ""quote"" 'q'
-uint8 Foo,}")).
-Eval vm_compute in ("<<<M1704>>>" ++ check (runes_of_ascii "options { trueish = ""`tick`"" ; @lengthOf(= """ ++ [233]%N ++ runes_of_ascii "t" ++ [233]%N ++ runes_of_ascii """
-    // c
-    } root
-    packet body { stringy @calculatedFrom(
-""a	b"" ) `line1
-line2` , }
-packet Logon {
-    @leftPad(
-    ' ' ) //	t
-u16 string_ `u8 x,` ,
-}
-")).
-Eval vm_compute in ("<<<M1754>>>" ++ check (runes_of_ascii "options { trueish = ""`tick`"" ; string_= """ ++ [233]%N ++ runes_of_ascii "t" ++ [233]%N ++ runes_of_ascii """
-    // c
-    } root
-    packet body { stringy @calculatedFrom(
-char[] ) `line1
-line2` , }
-packet Logon {
-    @leftPad(
-    ' ' ) //	t
-u16 string_ `u8 x,` ,
-}
-")).
-Eval vm_compute in ("<<<M1753>>>" ++ check (runes_of_ascii "options { trueish = ""`tick`"" ; string_= """ ++ [233]%N ++ runes_of_ascii "t" ++ [233]%N ++ runes_of_ascii """
-    // c
-    } root
-    packet body { stringy @calculatedFrom(
-) ""a	b"" `line1
-line2` , }
-packet Logon {
-    @leftPad(
-    ' ' ) //	t
-u16 string_ `u8 x,` ,
-}
-")).
-Eval vm_compute in ("<<<M1766>>>" ++ check (runes_of_ascii "options { trueish = ""`tick`"" ; string_= """ ++ [233]%N ++ runes_of_ascii "t" ++ [233]%N ++ runes_of_ascii """
-    // c
-    } root
-    packet body { stringy @calculatedFrom(
-""a	b"" ) `line1
-line2`  }
-packet Logon {
-    @leftPad(
-    ' ' ) //	t
-u16 string_ `u8 x,` ,
-}
-")).
-Eval vm_compute in ("<<<M625>>>" ++ check (runes_of_ascii "
-root	packet i64_ { roots a1	, @calculatedFrom(""`tick`"" )
-i64 //
-float `it's` ,@calculatedFrom(
-""\n"" ) @calculatedFrom( ""1"" ) @tag(
-    10 )	f64
-trueish
-`" ++ [28040; 24687; 31867; 22411]%N ++ runes_of_ascii "`	, trueish @calculatedFrom( ""\n"" ) ,}")).
-Eval vm_compute in ("<<<M1115>>>" ++ check (runes_of_ascii "options { i64_ =
-true} root packet // c
-repeatCount { u32 Foo //	t
-, int8	rootA ,  zchar[
-0
-]
-MetaDataX ,	@calculatedFrom( ""a\""b"" ) char  o, // " ++ [128512]%N ++ runes_of_ascii " emoji
-}packet i64_ { } //
-packet Foo
-{ }
-")).
-Eval vm_compute in ("<<<M506>>>" ++ check (runes_of_ascii "MetaData metadata { //	t
-uint8x pack , a1
-f32a , zchar a1 , rootA Header ,
-    char[  42
-    ]	string_,
-    asx charz `crlf
-line`
-    // @lengthOf(
-    , } options /// triple
+	// a // b
+	  @calculatedFrom(	""" ++ [233]%N ++ runes_of_ascii "t" ++ [233]%N ++ runes_of_ascii """	) 
+repeat	pack
+	pack // " ++ [27880; 37322]%N ++ runes_of_ascii "
+,}	// c")).
+Eval vm_compute in ("<<<M1336>>>" ++ check (runes_of_ascii "// top
+packet
+    // c0
+o
+    // c1
 {
-    } 	 ")).
-Eval vm_compute in ("<<<M1185>>>" ++ check (runes_of_ascii "  packet zchar { @calculatedFrom( ""// no comment""
-)i32
-//x
-//
-x_y_z , }options {int = i8 ; MetaDataX
-=
-// trailing space 
-// c
-char[] ; Logon
-    =false; roots= 0//
-Pad
-=
-false ;
-}")).
-Eval vm_compute in ("<<<M4193>>>" ++ check (runes_of_ascii "packet A {
-    u8 a,
-}
-
-packet B {
-    u16 b,
-}
-
-root packet P {
-    u8 K1,
-    u8 K2,
-    match K1 as M1 {
-        1 : A,
-    },
-    match K2 as M2 {
-        1 : B,
-    },
-}")).
-Eval vm_compute in ("<<<M2083>>>" ++ check (runes_of_ascii "options@calculatedFrom(
-_x
-= true
-} options
-{ o	= /// triple
-false
-    ; chars
-= ""\n"" } root packet	Pad
-/// triple
-// packet A { u8 x, }
-{	chars
-    // a // b
-    ,}")).
-Eval vm_compute in ("<<<M4303>>>" ++ check (runes_of_ascii "packet A {
-    match k as n {
-        [
-            ""a"", 22, ""c c"", 4, ""e"",
-            66, ""g"", 8, ""i"", 10,
-            ""k""
-        ] : B,
-        2 : C,
-    },
-}")).
-Eval vm_compute in ("<<<M2160>>>" ++ check (runes_of_ascii "options{
-_x
-= true
-} options
-{ o	= /// triple
-false
-    ; chars
-= ""\n"" } root packet packet	Pad
-/// triple
-// packet A { u8 x, }
-{	chars
-    // a // b
-    ,}")).
-Eval vm_compute in ("<<<M4499>>>" ++ check (runes_of_ascii "// top
-MetaData float {
     // c2
-    float64 charz `
-    `,// c6
-}// c7
-
-root packet chars {
-    // c11
-    @rightPad('0')
-    // c15
-    Foo,// c17
-}// c18")).
-Eval vm_compute in ("<<<M2364>>>" ++ check (runes_of_ascii "// c
-packet x { @lengthOf( metadata ) repeat lengthOf
-,a1{
-trueish	u8// c
-repeat//	t
-MetaDataX , } , zchar[
-    42	] rootA // `tick` ""quote"" 'q'
-,
-    }
-")).
-Eval vm_compute in ("<<<M2363>>>" ++ check (runes_of_ascii "// c
-packet x { @lengthOf( metadata ) repeat lengthOf
-a1,{
-trueish	,// c
-repeat//	t
-MetaDataX , } , zchar[
-    42	] rootA // `tick` ""quote"" 'q'
-,
-    }
-")).
-Eval vm_compute in ("<<<M2416>>>" ++ check (runes_of_ascii "// c
-packet x { @lengthOf( metadata ) repeat lengthOf
-,a1
-trueish	,// c
-repeat//	t
-MetaDataX , } , zchar[
-    42	] rootA // `tick` ""quote"" 'q'
-,
-    }
-")).
-Eval vm_compute in ("<<<M2206>>>" ++ check (runes_of_ascii "options{
-x" ++ [178]%N ++ runes_of_ascii "
-= true
-} options
-{ o	= /// triple
-false
-    ; chars
-= ""\n"" } root packet	Pad
-/// triple
-// packet A { u8 x, }
-{	chars
-    // a // b
-    ,}")).
-Eval vm_compute in ("<<<M2084>>>" ++ check (runes_of_ascii "options{
-
-= true
-} options
-{ o	= /// triple
-false
-    ; chars
-= ""\n"" } root packet	Pad
-/// triple
-// packet A { u8 x, }
-{	chars
-    // a // b
-    ,}")).
-Eval vm_compute in ("<<<M3544>>>" ++ check (runes_of_ascii "packet B
-
-{
-	u8
-a
-, }
-    root
-	packet
-    P {u8
-K
-
-    ,u8
-L
-    @lengthOf( Body
-) ,	match
-K
-as
-Body {	1
-
-    :
-	B
-
-    ,	}
-
-    ,
-}
-")).
-Eval vm_compute in ("<<<M2411>>>" ++ check (runes_of_ascii "// c
-packet x { @lengthOf( metadata ) repeat lengthOf
-,a1{
-trueish	,// c
-repeat//	t
- , } , zchar[
-    42	] rootA // `tick` ""quote"" 'q'
-,
-    }
-")).
-Eval vm_compute in ("<<<M4257>>>" ++ check (runes_of_ascii "packet  A {
-Inner  { match  k 
-as
-    n
-
-    { [
-	1 , 22
-,007 ,
-
-4  ,
-
-5
-,
-66
-,	7
-,	8
-
-,  9
-
-    , 10,
-	11
-	,12  ]:B	,} ,
-	},
-
-    }
-")).
-Eval vm_compute in ("<<<M3966>>>" ++ check (runes_of_ascii "packet A {
-    match k as n {
-        [
-            1, ""bb"", 007, ""d"", 5,
-            ""f"", 7, ""h""
-        ] : B,
-        2 : C,
-    },
-}")).
-Eval vm_compute in ("<<<M3858>>>" ++ check (runes_of_ascii "
-// top
-		root 
-// c0
-	  packet
-
-// c1
-
-u128 
-	    // c2
-	{ 
-// c3
-chars
+repeat
+    // c3
+Logon
     // c4
-`it's` 
-// c5
+uint8x
+    // c5
+,
+    // c6
+}
+    // c7
+options
+    // c8
+{
+    // c9
+asx
+    // c10
+=
+    // c11
+zchar[
+    // c12
+3
+    // c13
+]
+    // c14
+stringy
+    // c15
+=
+    // c16
+'\x00'
+    // c17
+}
+    // c18
+")).
+Eval vm_compute in ("<<<M564>>>" ++ check (runes_of_ascii "root packet tag { }  packet MetaDataX{char[007	]
+// c
+/// triple
+asx  @calculatedFrom( ""a\""b""
+) `say ""hi""`// " ++ [27880; 37322]%N ++ runes_of_ascii "
+,  @tag( @tag(4294967296 )
+    char[1//x
+] packetx @calculatedFrom(""a\""b""
+    ) ,
+// " ++ [128512]%N ++ runes_of_ascii " emoji
+// a // b
+@calculatedFrom(""" ++ [233]%N ++ runes_of_ascii "t" ++ [233]%N ++ runes_of_ascii """  ) repeat pack // " ++ [27880; 37322]%N ++ runes_of_ascii "
+,
+    } // c")).
+Eval vm_compute in ("<<<M559>>>" ++ check (runes_of_ascii "root packet tag { }  packet MetaDataX{char[007	]
+// c
+/// triple
+asx  @calculatedFrom( ""a\""b""
+) `say ""hi""`// " ++ [27880; 37322]%N ++ runes_of_ascii "
+, ,  @tag(4294967296 )
+    char[1//x
+] packetx @calculatedFrom(""a\""b""
+    ) ,
+// " ++ [128512]%N ++ runes_of_ascii " emoji
+// a // b
+@calculatedFrom(""" ++ [233]%N ++ runes_of_ascii "t" ++ [233]%N ++ runes_of_ascii """  ) repeat pack // " ++ [27880; 37322]%N ++ runes_of_ascii "
+,
+    } // c")).
+Eval vm_compute in ("<<<M668>>>" ++ check (runes_of_ascii "root packet tag { }  packet MetaData<X{char[007	]
+// c
+/// triple
+asx  @calculatedFrom( ""a\""b""
+) `say ""hi""`// " ++ [27880; 37322]%N ++ runes_of_ascii "
+,  @tag(4294967296 )
+    char[1//x
+] packetx @calculatedFrom(""a\""b""
+    ) ,
+// " ++ [128512]%N ++ runes_of_ascii " emoji
+// a // b
+@calculatedFrom(""" ++ [233]%N ++ runes_of_ascii "t" ++ [233]%N ++ runes_of_ascii """  ) repeat pack // " ++ [27880; 37322]%N ++ runes_of_ascii "
+,
+    } // c")).
+Eval vm_compute in ("<<<M625>>>" ++ check (runes_of_ascii "root packet tag { }  packet MetaDataX{char[007	]
+// c
+/// triple
+asx  @calculatedFrom( ""a\""b""
+) `say ""hi""`// " ++ [27880; 37322]%N ++ runes_of_ascii "
+,  @tag(4294967296 )
+    char[1//x
+] packetx @calculatedFrom(""a\""b""
+    ) ,
+// " ++ [128512]%N ++ runes_of_ascii " emoji
+// a // b
+@calculatedFrom()  """ ++ [233]%N ++ runes_of_ascii "t" ++ [233]%N ++ runes_of_ascii """ repeat pack // " ++ [27880; 37322]%N ++ runes_of_ascii "
+,
+    } // c")).
+Eval vm_compute in ("<<<M488>>>" ++ check (runes_of_ascii "root packet  { }  packet MetaDataX{char[007	]
+// c
+/// triple
+asx  @calculatedFrom( ""a\""b""
+) `say ""hi""`// " ++ [27880; 37322]%N ++ runes_of_ascii "
+,  @tag(4294967296 )
+    char[1//x
+] packetx @calculatedFrom(""a\""b""
+    ) ,
+// " ++ [128512]%N ++ runes_of_ascii " emoji
+// a // b
+@calculatedFrom(""" ++ [233]%N ++ runes_of_ascii "t" ++ [233]%N ++ runes_of_ascii """  ) repeat pack // " ++ [27880; 37322]%N ++ runes_of_ascii "
+,
+    } // c")).
+Eval vm_compute in ("<<<M601>>>" ++ check (runes_of_ascii "root packet tag { }  packet MetaDataX{char[007	]
+// c
+/// triple
+asx  @calculatedFrom( ""a\""b""
+) `say ""hi""`// " ++ [27880; 37322]%N ++ runes_of_ascii "
+,  @tag(4294967296 )
+    char[1//x
+] packetx char[""a\""b""
+    ) ,
+// " ++ [128512]%N ++ runes_of_ascii " emoji
+// a // b
+@calculatedFrom(""" ++ [233]%N ++ runes_of_ascii "t" ++ [233]%N ++ runes_of_ascii """  ) repeat pack // " ++ [27880; 37322]%N ++ runes_of_ascii "
+,
+    } // c")).
+Eval vm_compute in ("<<<M301>>>" ++ check (runes_of_ascii "  MetaData // c
+crc
+{ i64 matchKey,
+    _x msg_type//
+, zchar zchar
+    ,
+    MetaDataX	matchKey
+    `a\` ,
+    u32 Header // " ++ [128512]%N ++ runes_of_ascii " emoji
+, } MetaData
+_x{
+    } root packet
+    calculatedFrom
+// `tick` ""quote"" 'q'
+// @lengthOf(
+{	}
+")).
+Eval vm_compute in ("<<<M79>>>" ++ check (runes_of_ascii "root packet Foo {i16 BodyLength `// not a comment`
+    // c
+    ,
+    //x
+    }options { // packet A { u8 x, }
+} options
+    {Z9_ = // trailing space 
+false msg_type //
+=
+true f32a = ' ' zchar  =""`tick`"";}
+")).
+Eval vm_compute in ("<<<M138>>>" ++ check (runes_of_ascii "options
+{ MetaDataX=""\n""
+    /// triple
+    stringy = 4294967296 ; Packet=
+    false	; As = ""a\\"" /// triple
+; stringy = ' ';} options {
+}
+    MetaData roots {
+stringy MetaDataX
+    , }")).
+Eval vm_compute in ("<<<M415>>>" ++ check (runes_of_ascii "packet
+    // `tick` ""quote"" 'q'
+    crc
+// packet A { u8 x, }
+//	t
+{
+u32 a1 ,
+    // trailing space 
+    roots roots
+charz //
+`two words`,	}
+    MetaData int {
+} /// triple")).
+Eval vm_compute in ("<<<M437>>>" ++ check (runes_of_ascii "packet
+    // `tick` ""quote"" 'q'
+    crc
+// packet A { u8 x, }
+//	t
+{
+u32 a1 ,
+    // trailing space 
+    roots
+charz //
+`two words`,	i16
+    MetaData int {
+} /// triple")).
+Eval vm_compute in ("<<<M401>>>" ++ check (runes_of_ascii "packet
+    // `tick` ""quote"" 'q'
+    crc
+// packet A { u8 x, }
+//	t
+{
+a1 u32 ,
+    // trailing space 
+    roots
+charz //
+`two words`,	}
+    MetaData int {
+} /// triple")).
+Eval vm_compute in ("<<<M434>>>" ++ check (runes_of_ascii "packet
+    // `tick` ""quote"" 'q'
+    crc
+// packet A { u8 x, }
+//	t
+{
+u32 a1 ,
+    // trailing space 
+    roots
+charz //
+`two words`,	
+    MetaData int {
+} /// triple")).
+Eval vm_compute in ("<<<M419>>>" ++ check (runes_of_ascii "packet
+    // `tick` ""quote"" 'q'
+    crc
+// packet A { u8 x, }
+//	t
+{
+u32 a1 ,
+    // trailing space 
+    roots
+ //
+`two words`,	}
+    MetaData int {
+} /// triple")).
+Eval vm_compute in ("<<<M1693>>>" ++ check (runes_of_ascii "options {
+    matchKey = 10
+}
+
+MetaData options1 {
+    matchKey o `doc`,
+    rootA tag,
+    uint32 _x `line1
+        line2`,
+    char[] chars `say ""hi""`,
+}")).
+Eval vm_compute in ("<<<M592>>>" ++ check (runes_of_ascii "root packet tag { }  packet MetaDataX{char[007	]
+// c
+/// triple
+asx  @calculatedFrom( ""a\""b""
+) `say ""hi""`// " ++ [27880; 37322]%N ++ runes_of_ascii "
+,  @tag(4294967296 )
+    char[1")).
+Eval vm_compute in ("<<<M1601>>>" ++ check (runes_of_ascii "  packet
+A
+
+    {	match
+
+    k
+as
+
+n	{ [ ""a"" ,  22,
+
+""c c"" ,
+
+4 
+,""e"" ,
+66,
+
+""g"",
+
+    8 , 
+""i""
 	,
 
-// c6
-    	}
-    // c7")).
-Eval vm_compute in ("<<<M4184>>>" ++ check (runes_of_ascii "packet rootA {
-}
-
-// `tick` ""quote"" 'q'
-/// triple
-options {
-    stringy = 0123456789;
-    T = 42;
-    string_ = ""a\""b"";
-}
-//")).
-Eval vm_compute in ("<<<M1483>>>" ++ check (runes_of_ascii "
-packet
-    falsey { Header@calculatedFrom(""packet""  ) @tag , char[
-    0123456789 ] packetx
-    , } // `tick` ""quote"" 'q'")).
-Eval vm_compute in ("<<<M3328>>>" ++ check (runes_of_ascii "root packet matchKey { zchar[ 3 ] pack @calculatedFrom( // c
-""a	b"" ) `doc` , } options { } MetaData A { int8 msg_type , }")).
-Eval vm_compute in ("<<<M4119>>>" ++ check (runes_of_ascii "
-
-  packet chars {
-}
-packet
-MetaDataX{ @tag(  42 
-      // c
-    	)
-
-i16
-string_ 
+10] :
+B 2
+:
+    C } 
 ,
+    }")).
+Eval vm_compute in ("<<<M1955>>>" ++ check (runes_of_ascii "packet A {
+    match k
 
-    repeat
-    x  `say ""hi""`
-, }")).
-Eval vm_compute in ("<<<M1482>>>" ++ check (runes_of_ascii "
-packet
-    falsey { Header@calculatedFrom(""packet""  ) , char[
-    0123456789 ] packetx
-  #  , } // `tick` ""quote"" 'q'")).
-Eval vm_compute in ("<<<M3814>>>" ++ check (runes_of_ascii "
+as
+	n
+	{ 
+[ ""a""
+    , 
+""bb"" , ""c c""
+    ,
+""d"",
+    ""e""
+	, ""f"" , ""g""  ,""h"" ] :
 
-  packet falsey
+    B
 
-{
-Header  @calculatedFrom(	""packet""	)
-, char[
-0123456789 ]  packetx, } // `tick` ""quote"" 'q'#
+,
+2: C
+}
+
+, }
 ")).
-Eval vm_compute in ("<<<M4190>>>" ++ check (runes_of_ascii "
+Eval vm_compute in ("<<<M1231>>>" ++ check (runes_of_ascii "root packet matchKey { zchar[ // c
+3 ] pack @calculatedFrom( ""a	b"" ) `doc` , } options { } MetaData A { int8 msg_type , }")).
+Eval vm_compute in ("<<<M1263>>>" ++ check (runes_of_ascii "root packet matchKey { zchar[ 3 ] pack @calculatedFrom( ""a	b"" ) `doc` , } options { } MetaData A { int8 // c
+msg_type , }")).
+Eval vm_compute in ("<<<M1686>>>" ++ check (runes_of_ascii "
 
-  packet 
-A  {	u16 len  @lengthOf( 
-body
-	)
+  packet
+metadata  { 
+Logon
+{
 
-`
-` ,
+    A
+	`" ++ [28040; 24687; 31867; 22411]%N ++ runes_of_ascii "` 
+  // c
 
-u32 
-crc @calculatedFrom(""CRC32"" )
+  ,  tag
+o
 
-`
-` 
-,  string
-body
+,
+}, zchar
+    len`// not a comment`  ,
+	} ")).
+Eval vm_compute in ("<<<M938>>>" ++ check (runes_of_ascii "packet A {
+    u16 len @lengthOf(body) `a
 
-, }")).
-Eval vm_compute in ("<<<M904>>>" ++ check (runes_of_ascii "packet uint8x {
-    repeat // c
-repeatCount { Packet
-@calculatedFrom( ""packet"" ) , } , // packet A { u8 x, }
+b`,
+    u32 crc @calculatedFrom(""CRC32"") `a
+
+b`,
+    string body,
 }")).
-Eval vm_compute in ("<<<M2329>>>" ++ check (runes_of_ascii "// c
-packet x { @lengthOf( metadata ) repeat lengthOf
-,a1{
-trueish	,// c
-repeat//	t
-MetaDataX , } , zchar[")).
-Eval vm_compute in ("<<<M3723>>>" ++ check (runes_of_ascii "MetaData float {
-    float64 charz `
-        `,
+Eval vm_compute in ("<<<M53>>>" ++ check (runes_of_ascii "MetaData
+trueish {int
+falsey , char[
+10
+    ] u  , zchar[ 007 ] leftPad , string
+x `two words`
+    ,  }
+")).
+Eval vm_compute in ("<<<M1696>>>" ++ check (runes_of_ascii "
+packet
+    A
+	{  match k  as n{
+[ ""a"",
+
+""bb""
+, 
+007 ,
+
+""d"",
+
+""e""  ,	66  , ""g""]
+	:
+
+B  2  : 
+C }	,
+	}
+")).
+Eval vm_compute in ("<<<M1972>>>" ++ check (runes_of_ascii "packet o {
+    repeat Logon uint8x,
 }
 
-// c
-root packet chars {
-    @rightPad('0')
-    Foo,
-}")).
-Eval vm_compute in ("<<<M4238>>>" ++ check (runes_of_ascii "packet chars {
-}
-
-packet MetaDataX {
-    @tag(42)
+options {
     // c
-    i16 string_,
-    repeat x `say ""hi""`,
+    asx = zchar[3]
+    stringy = '\x00'
 }")).
-Eval vm_compute in ("<<<M4058>>>" ++ check (runes_of_ascii "
+Eval vm_compute in ("<<<M1720>>>" ++ check (runes_of_ascii "packet 
+A  {
 
-  /// triple
-    options { Z9_= 007 ;
-    // a // b
+B
 
-  //
-Pad
-    = 0123456789	u
-    =
-""CRC32"" 
-} ")).
-Eval vm_compute in ("<<<M2984>>>" ++ check (runes_of_ascii "packet A {
+b	`a
+    b
+  c` ,B `a
+    b
+  c`	,
+
+    repeat B bs
+    `a
+    b
+  c` ,
+}
+
+")).
+Eval vm_compute in ("<<<M1866>>>" ++ check (runes_of_ascii "packet A {
+    match k as n {
+        [""a"", 22, ""c c"", 4, ""e""] : B,
+        2 : C,
+    },
+}")).
+Eval vm_compute in ("<<<M1190>>>" ++ check (runes_of_ascii "MetaData float { float64 charz `
+` // c
+, } root packet chars { @rightPad ( '0' ) Foo , }")).
+Eval vm_compute in ("<<<M1401>>>" ++ check (runes_of_ascii "packet chars {
+// c
+} packet MetaDataX { @tag( 42 ) i16 string_ , repeat x `say ""hi""` , }")).
+Eval vm_compute in ("<<<M2032>>>" ++ check (runes_of_ascii "
+
+  root packet
+P 
+{
+
+    u16
+a ,u32
+
+    Sum @calculatedFrom(  ""CR\
+C32"" )
+    ,
+
+}")).
+Eval vm_compute in ("<<<M1131>>>" ++ check (runes_of_ascii "packet metadata { Logon
+// c
+{ A `" ++ [28040; 24687; 31867; 22411]%N ++ runes_of_ascii "` , tag o , } , zchar len `// not a comment` , }")).
+Eval vm_compute in ("<<<M855>>>" ++ check (runes_of_ascii "packet A {
   match k as n {
-    [1, 22, ""c c"", 4, 5, ""f"", 7, 8, ""i"", 10, 11] : B
+    [1, 22, ""c c"", 4, 5, ""f"", 7, 8] : B,
     2 : C
   },
 }")).
-Eval vm_compute in ("<<<M2222>>>" ++ check (runes_of_ascii "options
-{ } options options { BodyLength= u16 Header= f64 ; u128 =
-    true
-    ; } // a // b")).
-Eval vm_compute in ("<<<M1466>>>" ++ check (runes_of_ascii "
-packet
-    falsey { Header@calculatedFrom(""packet""  ) , char[
-    0123456789 ] packetx
-    ")).
-Eval vm_compute in ("<<<M2257>>>" ++ check (runes_of_ascii "options
-{ } options { BodyLength= u16 Header= f64 f64 ; u128 =
-    true
-    ; } // a // b")).
-Eval vm_compute in ("<<<M3276>>>" ++ check (runes_of_ascii "MetaData float { float64
+Eval vm_compute in ("<<<M1368>>>" ++ check (runes_of_ascii "packet o { repeat Logon uint8x , } options { asx = zchar[ 3 ] // c
+stringy = '\x00' }")).
+Eval vm_compute in ("<<<M1334>>>" ++ check (runes_of_ascii "MetaData body { i64 pack `it's` , } packet stringy { int16 calculatedFrom , }
 // c
-charz `
-` , } root packet chars { @rightPad ( '0' ) Foo , }")).
-Eval vm_compute in ("<<<M3487>>>" ++ check (runes_of_ascii "packet chars // c
-{ } packet MetaDataX { @tag( 42 ) i16 string_ , repeat x `say ""hi""` , }")).
-Eval vm_compute in ("<<<M3775>>>" ++ check (runes_of_ascii "packet A { 
-match
-
-k
-as
-
-n
-{
-
-    [  1
-, 22 , ""c c""	, 4  ]
-
-    :
-B
-	2  :	C	}
-,
-}
-
 ")).
-Eval vm_compute in ("<<<M2253>>>" ++ check (runes_of_ascii "options
-{ } options { BodyLength= u16 Header f64 = ; u128 =
-    true
-    ; } // a // b")).
-Eval vm_compute in ("<<<M2210>>>" ++ check (runes_of_ascii "{
-options } options { BodyLength= u16 Header= f64 ; u128 =
-    true
-    ; } // a // b")).
-Eval vm_compute in ("<<<M3227>>>" ++ check (runes_of_ascii "packet metadata { Logon { A `" ++ [28040; 24687; 31867; 22411]%N ++ runes_of_ascii "` , // c
-tag o , } , zchar len `// not a comment` , }")).
-Eval vm_compute in ("<<<M2244>>>" ++ check (runes_of_ascii "options
-{ } options { BodyLength= as Header= f64 ; u128 =
-    true
-    ; } // a // b")).
-Eval vm_compute in ("<<<M3450>>>" ++ check (runes_of_ascii "packet o { repeat Logon uint8x , } options { asx
-// c
-= zchar[ 3 ] stringy = '\x00' }")).
-Eval vm_compute in ("<<<M4472>>>" ++ check (runes_of_ascii "packet A {
-    match k as n {
-        [1, 22, ""c c"", 4] : B,
-        2 : C,
-    },
-}")).
-Eval vm_compute in ("<<<M3392>>>" ++ check (runes_of_ascii "// c
-MetaData body { i64 pack `it's` , } packet stringy { int16 calculatedFrom , }")).
-Eval vm_compute in ("<<<M4481>>>" ++ check (runes_of_ascii "
-MetaData body{ 
-string asx, asx 	 // a // b
-int , u128 a1
-	,
-    int32
-	len , }
-")).
-Eval vm_compute in ("<<<M834>>>" ++ check (runes_of_ascii "  packet //	t
-crc {i32 Z9_
-// packet A { u8 x, }
-// " ++ [27880; 37322]%N ++ runes_of_ascii "
-@lengthOf( Pad ) ``, }
-")).
-Eval vm_compute in ("<<<M460>>>" ++ check (runes_of_ascii "root packet packetx
-{  zchar[4294967296 ] uint8x@lengthOf( uint8x	) ,
-    }
-")).
-Eval vm_compute in ("<<<M4525>>>" ++ check (runes_of_ascii "packet Inner {
-    u8 a,
-}
-
-root packet P {
-    Inner ref_obj,
-    u8 x,
-}")).
-Eval vm_compute in ("<<<M4616>>>" ++ check (runes_of_ascii "root packet P {
-    u16 a,
-    u32 Sum @calculatedFrom(""CR\
-    C32""),
-}")).
-Eval vm_compute in ("<<<M692>>>" ++ check (runes_of_ascii "options {
-T
-= false // a // b
-;
-    tag =
-    char[ 0 ]
-    ;
-    }
-")).
-Eval vm_compute in ("<<<M3251>>>" ++ check (runes_of_ascii "// top
-root // c0a
-  // c0b
-packet pack // c2a
-  // c2b
-{ // c3
-} ")).
-Eval vm_compute in ("<<<M1235>>>" ++ check (runes_of_ascii "options	{ falsey // " ++ [27880; 37322]%N ++ runes_of_ascii "
-=
-""\" ++ [233]%N ++ runes_of_ascii """	; lengthOf
-=
-0	;
-    // c
-    }
-")).
-Eval vm_compute in ("<<<M2797>>>" ++ check (runes_of_ascii "char[ '\x00' uint16 @lengthOf( i16 zchar[ MetaData u32 repeat")).
-Eval vm_compute in ("<<<M190>>>" ++ check (runes_of_ascii "MetaData zchar
-    {  i32 Z9_ `say ""hi""` ,
-    } // a // b")).
-Eval vm_compute in ("<<<M3384>>>" ++ check (runes_of_ascii "packet x { @rightPad ( ) repeat roots Logon `doc`
-// c
+Eval vm_compute in ("<<<M1329>>>" ++ check (runes_of_ascii "MetaData body { i64 pack `it's` , } packet stringy { int16 calculatedFrom // c
 , }")).
-Eval vm_compute in ("<<<M300>>>" ++ check (runes_of_ascii "
-MetaData trueish // c
-{  string	trueish `it's`	,
+Eval vm_compute in ("<<<M1593>>>" ++ check (runes_of_ascii "MetaData M {
+    u8 x `a
+        
+        b`,
+    T t `a
+        
+        b`,
 }")).
-Eval vm_compute in ("<<<M650>>>" ++ check (runes_of_ascii "packet
-    u128 {
-repeat string
-As`say ""hi""`, } 	 ")).
-Eval vm_compute in ("<<<M3715>>>" ++ check (runes_of_ascii "MetaData crc {
-    uint8x float,
-}
-// @lengthOf(")).
-Eval vm_compute in ("<<<M4547>>>" ++ check (runes_of_ascii "packet  Logon  {
-    string u `two words` , }
-")).
-Eval vm_compute in ("<<<M2562>>>" ++ check (runes_of_ascii "packet A { repeat match k as n { 1 : B }, }")).
-Eval vm_compute in ("<<<M3188>>>" ++ check (runes_of_ascii "
+Eval vm_compute in ("<<<M801>>>" ++ check (runes_of_ascii "packet A {
+  match k as n {
+    [""a"", 22, ""c c"", 4] : B,
+    2 : C
+  },
+}")).
+Eval vm_compute in ("<<<M793>>>" ++ check (runes_of_ascii "packet A {
+  match k as n {
+    [""a"", ""bb"", 007] : B
+    2 : C
+  },
+}")).
+Eval vm_compute in ("<<<M1705>>>" ++ check (runes_of_ascii "packet crc {
+    @lengthOf(falsey)
+    Packet `crlf
+    line`,
+}")).
+Eval vm_compute in ("<<<M2040>>>" ++ check (runes_of_ascii "MetaData u128 {
+    uint8x msg_type `line1
+        line2`,
+}")).
+Eval vm_compute in ("<<<M1289>>>" ++ check (runes_of_ascii "packet x { @rightPad ( ) repeat
 // c
-root packet u128 { chars `it's` , }")).
-Eval vm_compute in ("<<<M4024>>>" ++ check (runes_of_ascii "options {
-    leftPad = """ ++ [28040; 24687]%N ++ runes_of_ascii """
-}// " ++ [128512]%N ++ runes_of_ascii " emoji")).
-Eval vm_compute in ("<<<M2583>>>" ++ check (runes_of_ascii "packet A { zchar[3] x @lengthOf(y), }")).
-Eval vm_compute in ("<<<M244>>>" ++ check (runes_of_ascii "
-packet/// triple
-packetx {
-} // " ++ [27880; 37322]%N)).
-Eval vm_compute in ("<<<M2621>>>" ++ check (runes_of_ascii "packet A { @tag(1) @tag(2) u8 x, }")).
-Eval vm_compute in ("<<<M1316>>>" ++ check (runes_of_ascii "packet As
-{stringy i8i8
-,} // c")).
-Eval vm_compute in ("<<<M3805>>>" ++ check (runes_of_ascii "options
+roots Logon `doc` , }")).
+Eval vm_compute in ("<<<M327>>>" ++ check (runes_of_ascii "options {
+_x = 0
+; As = zchar[ 4294967296 ] ; } //x")).
+Eval vm_compute in ("<<<M1958>>>" ++ check (runes_of_ascii "root
 
-    {falsey
-	=false}")).
-Eval vm_compute in ("<<<M3142>>>" ++ check (runes_of_ascii "packet A {
- u8 x `d" ++ [6158]%N ++ runes_of_ascii "`, // c" ++ [6158]%N ++ runes_of_ascii "
-}")).
-Eval vm_compute in ("<<<M4128>>>" ++ check (runes_of_ascii "//x
-options {
-    o = ' ';
-}")).
-Eval vm_compute in ("<<<M2447>>>" ++ check (runes_of_ascii "int8 int16 int32 int64 int")).
-Eval vm_compute in ("<<<M3258>>>" ++ check (runes_of_ascii "root packet pack // c
-{ }")).
-Eval vm_compute in ("<<<M1288>>>" ++ check (runes_of_ascii "packet
-falsey
-    { }
-")).
-Eval vm_compute in ("<<<M2648>>>" ++ check (runes_of_ascii "MetaData M { x y z, }")).
-Eval vm_compute in ("<<<M4375>>>" ++ check (runes_of_ascii "root packet u128 {
-}")).
-Eval vm_compute in ("<<<M3474>>>" ++ check (runes_of_ascii "MetaData o // c
-{ }")).
-Eval vm_compute in ("<<<M3100>>>" ++ check (runes_of_ascii "packet A {
-}
-// c" ++ [8233]%N)).
-Eval vm_compute in ("<<<M2647>>>" ++ check (runes_of_ascii "MetaData M { x, }")).
-Eval vm_compute in ("<<<M2641>>>" ++ check (runes_of_ascii "root options { }")).
-Eval vm_compute in ("<<<M4510>>>" ++ check (runes_of_ascii "
+packet
 
-  /// triple")).
-Eval vm_compute in ("<<<M779>>>" ++ check (runes_of_ascii "options { }")).
-Eval vm_compute in ("<<<M2457>>>" ++ check (runes_of_ascii "optionss")).
-Eval vm_compute in ("<<<M2425>>>" ++ check (runes_of_ascii "char[]")).
-Eval vm_compute in ("<<<M2461>>>" ++ check (runes_of_ascii "roots")).
-Eval vm_compute in ("<<<M908>>>" ++ check (runes_of_ascii "//x
+    pack
+{
+    }  
+      // c
 ")).
-Eval vm_compute in ("<<<M2454>>>" ++ check (runes_of_ascii "asx")).
-Eval vm_compute in ("<<<M247>>>" ++ check (runes_of_ascii "
+Eval vm_compute in ("<<<M1986>>>" ++ check (runes_of_ascii "  options
+	{
 
+    falsey =
+false
+    }
 ")).
-Eval vm_compute in ("<<<M2554>>>" ++ check ([233]%N)).
+Eval vm_compute in ("<<<M2012>>>" ++ check (runes_of_ascii "root packet A {
+    u8 x `tab
+    	x`,
+}")).
+Eval vm_compute in ("<<<M56>>>" ++ check (runes_of_ascii "// `tick` ""quote"" 'q'
+
+/// triple
+")).
+Eval vm_compute in ("<<<M1803>>>" ++ check (runes_of_ascii "root packet P {
+    string s,
+}")).
+Eval vm_compute in ("<<<M912>>>" ++ check (runes_of_ascii "packet A {
+    u8 x `a
+b`,
+}")).
+Eval vm_compute in ("<<<M1171>>>" ++ check (runes_of_ascii "root packet pack { // c
+}")).
+Eval vm_compute in ("<<<M1057>>>" ++ check (runes_of_ascii "// c x
+packet A {
+}")).
+Eval vm_compute in ("<<<M1017>>>" ++ check (runes_of_ascii "// c" ++ [8239]%N ++ runes_of_ascii "
+packet A {
+}")).
+Eval vm_compute in ("<<<M1024>>>" ++ check (runes_of_ascii "packet A {
+}// c" ++ [11]%N)).
+Eval vm_compute in ("<<<M1953>>>" ++ check (runes_of_ascii "  // c" ++ [8233]%N ++ runes_of_ascii "
+")).
+Eval vm_compute in ("<<<M1030>>>" ++ check (runes_of_ascii "// c" ++ [12]%N)).
